@@ -460,6 +460,8 @@ Section Pending.
       (* ... and conversely *)
       /\ (forall data, read_block bs s4 j f idx = Some data -> (fb_state b <> SChg -> hash_ok hashf bs f idx b data = true) ->
                        forall e, In e fe -> fe_bad e = false)
+      (* no bad entry: the block was read *)
+      /\ ((forall e, In e fe -> fe_bad e = false) -> exists data, read_block bs s4 j f idx = Some data)
       /\ r_fs s' = r_fs s4 /\ r_flags s' = r_flags s4 /\ r_par s' = r_par s4 /\ r_unrec s' = r_unrec s4.
   Proof.
     intros Hp Hfix Hd Hs Hj.
@@ -469,20 +471,20 @@ Section Pending.
     - destruct (fb_state b) eqn:Est.
       + destruct (hval_eqb (hashf data (block_len bs (cf_size f) idx)) (fb_hash b)) eqn:Eh; cbn [bstate_eqb].
         * do 4 eexists. split; [reflexivity|]. split; [reflexivity|]. split; [left; reflexivity|].
-          split; [intros _; right; exists data; split; [reflexivity | exact Eh]|]. split; [intros d0 _ _ e [] | auto].
+          split; [intros _; right; exists data; split; [reflexivity | exact Eh]|]. split; [intros d0 _ _ e []|]. split; [intros _; exists data; reflexivity | auto].
         * do 4 eexists. split; [reflexivity|]. split; [reflexivity|]. split; [right; exists true; unfold ent; rewrite Est; reflexivity|].
           split; [intro H; specialize (H _ (or_introl eq_refl)); discriminate H|].
-          split; [intros d0 Hd0 Hh e _; injection Hd0 as Hd0; subst d0; unfold hash_ok in Hh; rewrite Eh in Hh; specialize (Hh ltac:(discriminate)); discriminate Hh | auto].
+          split; [intros d0 Hd0 Hh e _; injection Hd0 as Hd0; subst d0; unfold hash_ok in Hh; rewrite Eh in Hh; specialize (Hh ltac:(discriminate)); discriminate Hh|]. split; [intro H; specialize (H _ (or_introl eq_refl)); discriminate H | auto].
       + do 4 eexists. split; [reflexivity|]. split; [reflexivity|]. split; [right; exists false; unfold ent; rewrite Est; reflexivity|].
-        split; [intros _; left; reflexivity|]. split; [intros d0 _ _ e [He|[]]; subst e; reflexivity | auto].
+        split; [intros _; left; reflexivity|]. split; [intros d0 _ _ e [He|[]]; subst e; reflexivity|]. split; [intros _; exists data; reflexivity | auto].
       + destruct (hval_eqb (hashf data (block_len bs (cf_size f) idx)) (fb_hash b)) eqn:Eh; cbn [bstate_eqb].
         * do 4 eexists. split; [reflexivity|]. split; [reflexivity|]. split; [right; exists false; unfold ent; rewrite Est; reflexivity|].
-          split; [intros _; right; exists data; split; [reflexivity | exact Eh]|]. split; [intros d0 _ _ e [He|[]]; subst e; reflexivity | auto].
+          split; [intros _; right; exists data; split; [reflexivity | exact Eh]|]. split; [intros d0 _ _ e [He|[]]; subst e; reflexivity|]. split; [intros _; exists data; reflexivity | auto].
         * do 4 eexists. split; [reflexivity|]. split; [reflexivity|]. split; [right; exists true; unfold ent; rewrite Est; reflexivity|].
           split; [intro H; specialize (H _ (or_introl eq_refl)); discriminate H|].
-          split; [intros d0 Hd0 Hh e _; injection Hd0 as Hd0; subst d0; unfold hash_ok in Hh; rewrite Eh in Hh; specialize (Hh ltac:(discriminate)); discriminate Hh | auto].
+          split; [intros d0 Hd0 Hh e _; injection Hd0 as Hd0; subst d0; unfold hash_ok in Hh; rewrite Eh in Hh; specialize (Hh ltac:(discriminate)); discriminate Hh|]. split; [intro H; specialize (H _ (or_introl eq_refl)); discriminate H | auto].
     - do 4 eexists. split; [reflexivity|]. split; [reflexivity|]. split; [right; exists true; reflexivity|].
-      split; [intro H; specialize (H _ (or_introl eq_refl)); discriminate H|]. split; [intros d0 Hd0; discriminate Hd0 | auto].
+      split; [intro H; specialize (H _ (or_introl eq_refl)); discriminate H|]. split; [intros d0 Hd0; discriminate Hd0|]. split; [intro H; specialize (H _ (or_introl eq_refl)); discriminate H | auto].
   Qed.
 
   (* ---- the loop over the disks, any stripe ---------------------------------------------------------------------------- *)
@@ -524,6 +526,9 @@ Section Pending.
                   hash_ok hashf bs f idx b (nth idx (ff_blocks (opened_file s j f)) 0%N) = true;
       (* a block that reads (and, unless CHG, hashes to the recorded hash) in a file that open does not cut has no bad entry, and
          its file is not flagged FIXED by the loop *)
+      dp_readable : forall j f idx b, slot_of c pos j = SFile f idx b -> j < k ->
+                  (forall e, In e (da_failed a) -> fe_idx e = j -> fe_bad e = false) ->
+                  (N.of_nat idx * bs + block_len bs (cf_size f) idx <= ff_size (opened_file s j f))%N;
       dp_nobad : forall j f idx b, slot_of c pos j = SFile f idx b -> j < k ->
                    (exists y, read_block bs s j f idx = Some y /\ (fb_state b <> SChg -> hash_ok hashf bs f idx b y = true)) ->
                    (forall g, fs_find (r_fs s) j (cf_name f) = Some g -> cut_cond s j f g = false) ->
@@ -573,6 +578,8 @@ Section Pending.
           + destruct Hfe as [Hfe|[h Hfe]]; subst fe; [contradiction|]. destruct He as [He|[]]. subst e. cbn. split; [lia|]. split; [reflexivity | left; auto].
         - intros j f idx b Hs Hj Hnc Hall. destruct (Nat.eq_dec j k) as [E|E]; [subst j; exfalso; apply (Hno f idx b Hs)|].
           apply (dp_good0 j f idx b Hs ltac:(lia) Hnc). intros e He. apply Hall. apply in_or_app. left. exact He.
+        - intros j f idx b Hs Hj Hall. destruct (Nat.eq_dec j k) as [E|E]; [subst j; exfalso; apply (Hno f idx b Hs)|].
+          apply (dp_readable0 j f idx b Hs ltac:(lia)). intros e He. apply Hall. apply in_or_app. left. exact He.
         - intros j f idx b Hs Hj Hrd Hnc e He Hi. destruct (Nat.eq_dec j k) as [E|E]; [rewrite E in Hs; exfalso; apply (Hno f idx b Hs)|].
           apply in_app_or in He. destruct He as [He|He]; [apply (dp_nobad0 j f idx b Hs ltac:(lia) Hrd Hnc e He Hi)|].
           destruct Hfe as [Hfe|[h Hfe]]; subst fe; [contradiction|]. destruct He as [He|[]]. subst e. reflexivity.
@@ -585,7 +592,7 @@ Section Pending.
       - unfold FixModel.data_step. rewrite Ed, Esa. rewrite <- (app_nil_r (da_failed a)). apply Hpush; auto. intros f idx b X. rewrite Hso in X. discriminate X.
       - (* a file block *)
         assert (Hkl : k < length (r_fs (da_st a))) by (rewrite (dp_len k a I), Hlenfs; exact Hk).
-        destruct (data_step_sfile o c pos a k d f idx b Hplain Hfix Ed Esa Hkl) as [s4 [s' [x [fe [v' [Eo [Eds [Hfe [Hgd [Hcv [E1 [E2 [E3 E4]]]]]]]]]]]]].
+        destruct (data_step_sfile o c pos a k d f idx b Hplain Hfix Ed Esa Hkl) as [s4 [s' [x [fe [v' [Eo [Eds [Hfe [Hgd [Hcv [Hrdb [E1 [E2 [E3 E4]]]]]]]]]]]]]].
         destruct (open_fix_gen o pos k f (da_st a) Hplain Hfix Hkl) as [s4' [Eo' [O1 [O2 [[Ou Od] [Ofx [O3 [O4 O5]]]]]]]].
         rewrite Eo in Eo'. injection Eo' as Eo'. subst s4'.
         assert (Eof : opened_file (da_st a) k f = opened_file s k f).
@@ -615,6 +622,14 @@ Section Pending.
             destruct (read_block_some bs s4 k f idx data Hr) as [g [Hg [Hy _]]]. rewrite O3 in Hg. injection Hg as Hg. subst g.
             rewrite <- Eof, <- Hy. exact Hh.
           * apply (dp_good0 j f0 idx0 b0 Hs0 ltac:(lia) Hnc). intros e He. apply Hall. apply in_or_app. left. exact He.
+        + intros j f0 idx0 b0 Hs0 Hj Hall. destruct (Nat.eq_dec j k) as [E|E].
+          * subst j. rewrite Hso in Hs0. injection Hs0 as X1 X2 X3. subst f0 idx0 b0.
+            destruct Hrdb as [data Hr].
+            { intros e He. apply Hall; [apply in_or_app; right; exact He|].
+              destruct Hfe as [Hfe|[bad Hfe]]; subst fe; [contradiction|]. destruct He as [He|[]]. subst e. reflexivity. }
+            destruct (read_block_some bs s4 k f idx data Hr) as [g [Hg [_ Hz]]]. rewrite O3 in Hg. injection Hg as Hg. subst g.
+            rewrite <- Eof. exact Hz.
+          * apply (dp_readable0 j f0 idx0 b0 Hs0 ltac:(lia)). intros e He. apply Hall. apply in_or_app. left. exact He.
         + intros j f0 idx0 b0 Hs0 Hj [y [Hry Hhy]] Hnc e He Hi. apply in_app_or in He. destruct He as [He|He].
           * destruct (Nat.eq_dec j k) as [E|E]; [destruct (dp_ent0 e He) as [X _]; lia|].
             apply (dp_nobad0 j f0 idx0 b0 Hs0 ltac:(lia) (ex_intro _ y (conj Hry Hhy)) Hnc e He Hi).
@@ -677,10 +692,11 @@ Section Pending.
 
   Lemma write_block_size g f idx x :
     (ff_size g <= ff_size (write_block padz truncf bs now g f idx x))%N
-    /\ (ff_size (write_block padz truncf bs now g f idx x) <= N.max (ff_size g) (N.of_nat idx * bs + block_len bs (cf_size f) idx))%N.
+    /\ (ff_size (write_block padz truncf bs now g f idx x) <= N.max (ff_size g) (N.of_nat idx * bs + block_len bs (cf_size f) idx))%N
+    /\ (N.of_nat idx * bs + block_len bs (cf_size f) idx <= ff_size (write_block padz truncf bs now g f idx x))%N.
   Proof.
     unfold write_block. cbn [ff_size].
-    destruct (ff_size g <? N.of_nat idx * bs + block_len bs (cf_size f) idx)%N eqn:E; [apply N.ltb_lt in E | apply N.ltb_ge in E]; lia.
+    destruct (ff_size g <? N.of_nat idx * bs + block_len bs (cf_size f) idx)%N eqn:E; [apply N.ltb_lt in E | apply N.ltb_ge in E]; repeat split; lia.
   Qed.
 
   Lemma wstep_frame o pos buf st e :
@@ -760,6 +776,140 @@ Section Pending.
         * apply (B5 e f i g He Hb Hf). rewrite A4; [exact Hg|].
           intros _ f0 i0 _ X. injection X as X _. apply (Hoth e He). exact X.
   Qed.
+
+
+  (* ---- status:recovered is only said by file_post: FlagWalk.v's walk replayed for "no new status:recovered line" ------------- *)
+  Definition Rn (s s' : rstate) : Prop := forall t, In t (r_tags s') -> fst t = K_ST_RECOVERED -> In t (r_tags s).
+  Lemma Rn_refl s : Rn s s.
+  Proof. intros t H _. exact H. Qed.
+  Lemma Rn_trans a b d : Rn a b -> Rn b d -> Rn a d.
+  Proof. intros H1 H2 t H Hk. apply (H1 t (H2 t H Hk) Hk). Qed.
+  Lemma Rn_ext s s' ext : r_tags s' = r_tags s ++ ext -> Forall (fun t => fst t <> K_ST_RECOVERED) ext -> Rn s s'.
+  Proof.
+    intros E Hf t Ht Hk. rewrite E in Ht. apply in_app_or in Ht. destruct Ht as [Ht|Ht]; [exact Ht|].
+    rewrite Forall_forall in Hf. exfalso. apply (Hf t Ht Hk).
+  Qed.
+  Ltac solve_rn :=
+    intros ?t ?Ht ?Hk; cbn [r_tags rs_tag rs_err rs_recov rs_unrec rs_setfs rs_setjn rs_setpar rs_flag rs_setfl] in *;
+    first [assumption
+          | match goal with H : In _ (_ ++ _) |- _ =>
+              apply in_app_or in H; destruct H as [H|H]; [exact H | exfalso; cbn in H;
+                repeat (match goal with H0 : _ \/ _ |- _ => destruct H0 as [H0|H0] end);
+                try contradiction; subst; cbn in *; discriminate] end].
+
+  Section RecWalk.
+    Variable o : copts.
+    Variable c : content.
+    Variable pos : nat.
+
+  Ltac walk :=
+    repeat match goal with
+    | |- Rn _ _ => assumption
+    | |- Rn ?a ?a => apply Rn_refl
+    | |- Rn _ (rs_flag ?x _ _) => apply (Rn_trans _ x); [| solve_rn]
+    | |- Rn _ (rs_tag ?x _) => apply (Rn_trans _ x); [| solve_rn]
+    | |- Rn _ (rs_err ?x _) => apply (Rn_trans _ x); [| solve_rn]
+    | |- Rn _ (rs_recov ?x _) => apply (Rn_trans _ x); [| solve_rn]
+    | |- Rn _ (rs_unrec ?x _) => apply (Rn_trans _ x); [| solve_rn]
+    | |- Rn _ (rs_setfs ?x _) => apply (Rn_trans _ x); [| solve_rn]
+    | |- Rn _ (rs_setjn ?x _) => apply (Rn_trans _ x); [| solve_rn]
+    | |- Rn _ (rs_setpar ?x _) => apply (Rn_trans _ x); [| solve_rn]
+    | |- Rn _ (if ?b then _ else _) => destruct b
+    | |- Rn _ (match ?x with Some _ => _ | None => _ end) => destruct x
+    end.
+
+  Lemma fold_Rn {A} (f : rstate -> A -> rstate) : (forall s x, Rn s (f s x)) -> forall l s, Rn s (fold_left f l s).
+  Proof.
+    intro H. induction l as [|x t IH]; intro s; [apply Rn_refl|]. cbn [fold_left].
+    apply (Rn_trans _ (f s x)); [apply H | apply IH].
+  Qed.
+  Lemma fold_pair_Rn {A B} (f : B * rstate -> A -> B * rstate) :
+    (forall acc x, Rn (snd acc) (snd (f acc x))) -> forall l acc, Rn (snd acc) (snd (fold_left f l acc)).
+  Proof.
+    intro H. induction l as [|x t IH]; intro acc; [apply Rn_refl|]. cbn [fold_left].
+    apply (Rn_trans _ (snd (f acc x))); [apply H | apply IH].
+  Qed.
+
+  Lemma open_Rn j f s0 s4 : Kpos c pos (j, cf_name f) -> open_step bs newino now o pos j f s0 = Some s4 -> Rn s0 s4.
+  Proof.
+    intros HK H. unfold open_step in H.
+    destruct (bool_dec (co_fix o) true) as [Efix|Efix].
+    - destruct (negb (co_fix o && negb (is_excl o j (cf_name f))) && _) in H; [discriminate|].
+      match type of H with match ?x with Some _ => _ | None => _ end = _ => destruct x as [g0|]; [|discriminate] end.
+      injection H as H. subst s4. walk.
+    - apply not_true_is_false in Efix. rewrite Efix in H. destruct (fs_find (r_fs s0) j (cf_name f)) as [g|] eqn:Ep.
+      + cbn [andb negb orb] in H. destruct (fl_missing _) in H; [discriminate|]. cbv beta iota in H. rewrite Ep in H.
+        injection H as H. subst s4. walk.
+      + cbn [andb negb orb] in H. rewrite orb_true_r in H. discriminate.
+  Qed.
+
+  Lemma data_step_Rn a j : Rn (da_st a) (da_st (data_step o c pos a j)).
+  Proof.
+    unfold data_step. destruct (nth j (c_disks c) None) as [d|] eqn:En; [|apply Rn_refl].
+    destruct (slot_at d pos) as [|f idx b|h] eqn:Es; try (apply Rn_refl).
+    assert (HK : Kpos c pos (j, cf_name f)).
+    { exists f, idx, b. cbn [fst snd]. rewrite slot_of_nth, En, Es. auto. }
+    destruct (co_audit o && is_excl o j (cf_name f)); [apply Rn_refl|].
+    destruct (open_step bs newino now o pos j f (da_st a)) as [s4|] eqn:Eo.
+    - pose proof (open_Rn j f (da_st a) s4 HK Eo) as X.
+      destruct (read_block bs s4 j f idx); [|cbn [da_st]; walk].
+      destruct (fb_state b); try (destruct (hval_eqb _ _)); cbn [da_st]; walk.
+    - cbn [da_st]. walk.
+  Qed.
+
+  Lemma data_phase_Rn s : Rn s (da_st (data_phase o c pos s)).
+  Proof.
+    unfold data_phase.
+    assert (H : forall l a, Rn (da_st a) (da_st (fold_left (data_step o c pos) l a))).
+    { induction l as [|x t IH]; intro a; [apply Rn_refl|]. cbn [fold_left].
+      apply (Rn_trans _ (da_st (data_step o c pos a x))); [apply data_step_Rn | apply IH]. }
+    apply (H _ (mkDA [] [] true false s)).
+  Qed.
+
+  Lemma parity_phase_Rn s : Rn s (snd (parity_phase nlev o pos s)).
+  Proof.
+    unfold parity_phase. refine (fold_pair_Rn _ _ _ ([], s)). intros [r st] l. cbn beta iota.
+    destruct (nth l (co_popen o) false); [destruct (nth pos (nth l (r_par st) []) PNone)|]; cbn [snd]; walk.
+  Qed.
+  Lemma compare_phase_Rn rec buf s : Rn s (snd (compare_phase nlev pos rec buf s)).
+  Proof.
+    unfold compare_phase. refine (fold_pair_Rn _ _ _ ([], s)). intros [r st] l. cbn beta iota zeta.
+    destruct (negb _ && negb _); cbn [snd]; walk.
+  Qed.
+  Lemma write_phase_Rn failed buf s : co_fix o = true -> Rn s (write_phase padz truncf bs now o pos failed buf s).
+  Proof.
+    intro Efix. unfold write_phase. apply fold_Rn. intros st e.
+    destruct (negb (fe_bad e)); [walk|]. destruct (fe_file e) as [[f i]|]; [|walk].
+    destruct (is_excl o (fe_idx e) (cf_name f) || _); [walk|]. walk.
+  Qed.
+  Lemma parity_write_Rn rec2 buf s : co_fix o = true -> Rn s (parity_write_phase nlev o pos rec2 buf s).
+  Proof. intro Efix. unfold parity_write_phase. apply fold_Rn. intros st l. walk. Qed.
+
+  Lemma ok_body_Rn failed' rec buf cp s1b : co_fix o = true -> Rn s1b (ok_body padz truncf bs nlev now o pos failed' rec buf cp s1b).
+  Proof.
+    intro Hfix. unfold ok_body. cbv zeta.
+    set (partial := filter (fun e => fe_bad e && fe_ood e) failed').
+    set (s3 := fold_left _ partial s1b).
+    assert (X3 : Rn s1b s3) by (apply fold_Rn; intros st e; destruct (fe_file e) as [[f i]|]; walk).
+    set (s4 := match partial with [] => s3 | _ => rs_unrec (rs_err s3 (length partial)) 1 end).
+    assert (X4 : Rn s1b s4) by (unfold s4; destruct partial; walk).
+    destruct cp.
+    - pose proof (compare_phase_Rn rec buf s4) as Cp. destruct (compare_phase nlev pos rec buf s4) as [rec2 s5]. cbn [snd] in Cp.
+      rewrite Hfix. apply (Rn_trans _ (write_phase padz truncf bs now o pos failed' buf s5)); [|apply parity_write_Rn; exact Hfix].
+      apply (Rn_trans _ s5); [apply (Rn_trans _ s4); assumption | apply write_phase_Rn; exact Hfix].
+    - rewrite Hfix. apply (Rn_trans _ s4); [exact X4 | apply write_phase_Rn; exact Hfix].
+  Qed.
+
+  Lemma fail_body_Rn res failed' s1b : Rn s1b (fail_body pos res failed' s1b).
+  Proof.
+    unfold fail_body. cbv zeta.
+    match goal with |- Rn _ (fold_left _ _ (fold_left _ _ ?s3)) => assert (X3 : Rn s1b s3) by walk end.
+    match goal with |- Rn _ (fold_left _ _ ?s4) => apply (Rn_trans _ s4) end.
+    - match goal with |- Rn _ (fold_left _ _ ?s3) => apply (Rn_trans _ s3); [exact X3|] end. apply fold_Rn. intros st [[j f] i]. walk.
+    - apply fold_Rn. intros st [[j f] i]. walk.
+  Qed.
+
+  End RecWalk.
 
   (* a rebuilt block that is not the stale old block of the CHG slot (pos, j): whatever block ob the past hash of the slot speaks
      of (past_hash_inv), x is not ob *)
@@ -955,11 +1105,14 @@ Section Pending.
             /\ fl_fixed (get_fl (r_flags s') (j, cf_name f)) = false /\ dam s' j f = false)
       (* a file flagged DAMAGED is reported (status:unrecoverable) and renamed away at its last block *)
       /\ (forall j f idx b, slot_of c pos j = SFile f idx b -> dam s' j f = true -> S idx = length (cf_blocks f) ->
-            fs_find (r_fs s') j (cf_name f) = None /\ In (K_ST_UNREC, [N.of_nat j; cf_name f]) (r_tags s')).
+            fs_find (r_fs s') j (cf_name f) = None /\ In (K_ST_UNREC, [N.of_nat j; cf_name f]) (r_tags s'))
+      (* the block of the stripe of a file not flagged DAMAGED lies inside the file *)
+      /\ (forall j f idx b, slot_of c pos j = SFile f idx b ->
+            dam s' j f = true \/ (N.of_nat idx * bs + block_len bs (cf_size f) idx <= fsz (r_fs s') j (cf_name f))%N).
     Proof.
       pose proof (data_phase_P o c pos s Hplain Hfix Hlenfs) as DP.
       set (a := data_phase o c pos s) in *.
-      destruct DP as [Dlen Dbl Dpar Dunrec Ddam Dfs Dhi Doth Dent Dgood Dnobad Dnofix Dnd].
+      destruct DP as [Dlen Dbl Dpar Dunrec Ddam Dfs Dhi Doth Dent Dgood Dreadable Dnobad Dnofix Dnd].
       pose proof (parity_phase_spec nlev o pos (da_st a) (pl_popen nlev o Hplain)) as Epp.
       set (rec := map (prow (r_par (da_st a)) pos) (seq 0 nlev)) in *.
       destruct (repair hashf padz bs nlev false pos (co_nosearch o) (search_view fs0 (r_fs (da_st a))) (da_failed a) rec (da_buf a) (r_jn (da_st a)))
@@ -1002,8 +1155,18 @@ Section Pending.
               fl_fixed (get_fl (r_flags s7) key) = fl_fixed (get_fl (r_flags (da_st a)) key)
               /\ fl_damaged (get_fl (r_flags s7) key) = fl_damaged (get_fl (r_flags (da_st a)) key))
         /\ (forall j f idx b, slot_of c pos j = SFile f idx b -> not_target failed' (j, cf_name f) ->
-              fs_find (r_fs s7) j (cf_name f) = Some (opened_file s j f))).
-      { assert (Hcase : res = ROk \/ res <> ROk) by (destruct res; [left; reflexivity | right; discriminate | right; discriminate]).
+              fs_find (r_fs s7) j (cf_name f) = Some (opened_file s j f))
+        /\ (forall j f idx b, slot_of c pos j = SFile f idx b ->
+              dam s7 j f = true
+              \/ exists g7, fs_find (r_fs s7) j (cf_name f) = Some g7 /\ (N.of_nat idx * bs + block_len bs (cf_size f) idx <= ff_size g7)%N)).
+      { assert (Hnobad : forall j, find (fun e => Nat.eqb (fe_idx e) j && fe_bad e) failed' = None ->
+                   (forall e, In e (da_failed a) -> fe_idx e = j -> fe_bad e = false) /\ (forall f, not_target failed' (j, cf_name f))).
+        { intros j Efind. split.
+          - intros e He Hi. pose proof (find_none _ _ Efind (gm e) ltac:(rewrite Egm; apply in_map; exact He)) as Y. cbn beta in Y.
+            destruct (Hgm e) as [G1 [G2 _]]. rewrite G1, G2, Hi, Nat.eqb_refl in Y. exact Y.
+          - intros f e' f0 i0 He' Hb' _ X. injection X as X1 _.
+            pose proof (find_none _ _ Efind e' He') as Y. cbn beta in Y. rewrite Hb', <- X1, Nat.eqb_refl in Y. discriminate Y. }
+        assert (Hcase : res = ROk \/ res <> ROk) by (destruct res; [left; reflexivity | right; discriminate | right; discriminate]).
         destruct Hcase as [Eres|Nres].
         - subst res.
           erewrite (stripe_step_ok hashf padz truncf bs nlev false newino now o c fs0 pos s rec _ failed' buf jn' rtags);
@@ -1026,7 +1189,16 @@ Section Pending.
                                  /\ (fb_state b <> SChg -> dam s7 j f = true \/ hash_ok hashf bs f idx b x = true))
                        /\ ((ff_size (opened_file s j f) <= ff_size g7)%N
                            /\ (ff_size g7 <= N.max (ff_size (opened_file s j f)) (N.of_nat idx * bs + block_len bs (cf_size f) idx))%N))).
-          { intros [X1 X2]. split; [exact X1|]. split; [exact X2|]. split; [|split; [|split]].
+          { intros [X1 X2]. split; [exact X1|]. split; [exact X2|]. split; [|split; [|split; [|split]]].
+            5: { intros j f idx b Es. pose proof (Hslotfs j f idx b Es) as Hg1.
+                 destruct (find (fun e => Nat.eqb (fe_idx e) j && fe_bad e) failed') as [e'|] eqn:Efind.
+                 - apply find_some in Efind. destruct Efind as [He' Hp']. apply andb_true_iff in Hp'. destruct Hp' as [Hi' Hb']. apply Nat.eqb_eq in Hi'.
+                   destruct (Hbadent e' He' Hb') as [f1 [idx1 [b1 [Es1 [Ef1 _]]]]]. rewrite Hi', Es in Es1. injection Es1 as Y1 Y2 Y3. subst f1 idx1 b1.
+                   rewrite <- Hi' in Hg1. destruct (K4 e' f idx _ He' Hb' Ef1 Hg1) as [Kw _]. rewrite Hi' in Kw.
+                   right. eexists. split; [exact Kw|]. destruct (write_block_size (opened_file s (fe_idx e') f) f idx (vnth buf j)) as [_ [_ Wz]]. rewrite Hi' in Wz. exact Wz.
+                 - destruct (Hnobad j Efind) as [N1 N2]. right. exists (opened_file s j f). split.
+                   + rewrite K3; [exact Hg1|]. intros e' f0 i0 He' Hb' Hf'. apply (N2 f e' f0 i0 He' Hb' Hf').
+                   + apply (Dreadable j f idx b Es (slot_lt c pos j f idx b Es) N1). }
             - rewrite <- Dunrec. split; [exact Ku|]. intros Hu k. rewrite (Kd Hu k). apply Ddam.
             - rewrite <- Dpar. split; [exact Kp1|]. split; [exact Kp2 | exact Kop].
             - intros key Hnt. unfold s7. rewrite (ok_body_flags_other o pos failed' rec buf cpv s1b key Hplain Hfix Hnt). split; reflexivity.
@@ -1041,7 +1213,8 @@ Section Pending.
               destruct (Hbadent e' He' Hb') as [f1 [idx1 [b1 [Es1 [Ef1 [Est1 Eh1]]]]]]. rewrite Hi', Es in Es1. injection Es1 as Y1 Y2 Y3. subst f1 idx1 b1.
               rewrite <- Hi' in Hg1. destruct (K4 e' f idx _ He' Hb' Ef1 Hg1) as [Kw Ko]. rewrite Hi' in Kw, Ko.
               destruct (write_block_blocks (opened_file s (fe_idx e') f) f idx (vnth buf j)) as [Wb1 Wb2]. rewrite Hi' in Wb1, Wb2.
-              pose proof (write_block_size (opened_file s (fe_idx e') f) f idx (vnth buf j)) as Wsz. rewrite Hi' in Wsz.
+              pose proof (write_block_size (opened_file s (fe_idx e') f) f idx (vnth buf j)) as [Wsz1 [Wsz2 _]]. rewrite Hi' in Wsz1, Wsz2.
+              pose proof (conj Wsz1 Wsz2) as Wsz.
               eexists. split; [exact Kw|]. split; [exact Wb2|]. split; [|exact Wsz]. right. exists (vnth buf j). split; [exact Wb1|]. split.
               { intro Hchg. destruct (fe_ood e') eqn:Eo; [left; apply Ko; reflexivity | right].
                 intros ob Hob. rewrite <- Hi'.
@@ -1088,8 +1261,15 @@ Section Pending.
               intros [Y|[x [Hx Hk]]]; [exact Y|]. exfalso. unfold bad_files in Hx. apply in_flat_map in Hx. destruct Hx as [e' [He' Hx]].
               destruct (fe_bad e') eqn:Eb'; [|contradiction]. destruct (fe_file e') as [[f0 i0]|] eqn:Ef'; [|contradiction].
               destruct Hx as [Hx|[]]. subst x. apply (Hnt e' f0 i0 He' Eb' Ef'). exact Hk.
-            * intros j f idx b Es _. apply (Hslotfs j f idx b Es). }
-      destruct HU as [s7 [E7 [U1 [U2 [U3 [[U4a U4b] [[U5a [U5b U5c]] [U7 U8]]]]]]]].
+            * split; [intros j f idx b Es _; apply (Hslotfs j f idx b Es)|].
+              intros j f idx b Es. destruct (find (fun e => Nat.eqb (fe_idx e) j && fe_bad e) failed') as [e'|] eqn:Efind.
+              -- left. apply find_some in Efind. destruct Efind as [He' Hp']. apply andb_true_iff in Hp'. destruct Hp' as [Hi' Hb']. apply Nat.eqb_eq in Hi'.
+                 destruct (Hbadent e' He' Hb') as [f1 [idx1 [b1 [Es1 [Ef1 _]]]]]. rewrite Hi', Es in Es1. injection Es1 as Y1 Y2 Y3. subst f1 idx1 b1.
+                 apply D6. right. exists (j, f, idx). split; [|reflexivity].
+                 unfold bad_files. apply in_flat_map. exists e'. split; [exact He'|]. rewrite Hb', Ef1, Hi'. left. reflexivity.
+              -- destruct (Hnobad j Efind) as [N1 _]. right. exists (opened_file s j f). split; [apply (Hslotfs j f idx b Es)|].
+                 apply (Dreadable j f idx b Es (slot_lt c pos j f idx b Es) N1). }
+      destruct HU as [s7 [E7 [U1 [U2 [U3 [[U4a U4b] [[U5a [U5b U5c]] [U7 [U8 U9]]]]]]]]].
       cbn zeta. rewrite E7.
       destruct (post_general hashf padz truncf bs nlev newino o c pos Hplain Hfix (seq 0 (length (c_disks c))) s7 (seq_NoDup _ 0)) as [P1 [P2 [P3 [P4 [_ [P6 P7]]]]]].
       cbn zeta in P1, P2, P3, P4, P6, P7.
@@ -1110,7 +1290,10 @@ Section Pending.
       assert (Hnt_other : forall j n, (forall f idx b, slot_of c pos j = SFile f idx b -> cf_name f <> n) -> not_target failed' (j, n)).
       { intros j n Hno e' f0 i0 He' Hb' Hf' X. injection X as X1 X2. destruct (Hbadent e' He' Hb') as [f1 [idx1 [b1 [Es1 [Ef1 _]]]]].
         rewrite Hf' in Ef1. injection Ef1 as Y1 Y2. subst f1 idx1. rewrite <- X1 in Es1. apply (Hno f0 i0 b1 Es1). symmetry. exact X2. }
-      split; [congruence|]. split; [|split; [|split; [|split; [|split; [|split; [|split; [|split]]]]]]].
+      split; [congruence|]. split; [|split; [|split; [|split; [|split; [|split; [|split; [|split; [|split]]]]]]]].
+      10: { intros j f idx b Es. destruct (P3 (j, cf_name f)) as [Yd _].
+            destruct (U9 j f idx b Es) as [X|[g7 [G1 Gz]]]; [left; rewrite Yd; exact X|].
+            destruct (Hsd j f idx b Es g7 G1) as [[_ [X _]]|[g [Hg [_ Hz]]]]; [left; exact X | right]. unfold fsz. rewrite Hg, Hz. exact Gz. }
       9: { intros j f idx b Es Hd Hl.
            assert (Hjn : In j (seq 0 (length (c_disks c)))) by (apply in_seq; pose proof (slot_lt c pos j f idx b Es); lia).
            destruct (P7 j f idx b Hjn Es) as [Pd _]. destruct (P3 (j, cf_name f)) as [Yd _]. rewrite Yd in Hd.
@@ -1167,6 +1350,353 @@ Section Pending.
     Proof. destruct fix_step_pending_full as [A [B [C [D _]]]]. cbn zeta. auto. Qed.
   End StepP.
 
+  (* ---- status:recovered: said by file_post, at the last block of a file flagged FIXED and not DAMAGED, and by nothing else ------ *)
+  Definition rec_tag (j : nat) (f : cfile) : N * list N := (K_ST_RECOVERED, [N.of_nat j; cf_name f]).
+
+  Lemma in_app1 {A} (x : A) l y : In x (l ++ [y]) <-> In x l \/ x = y.
+  Proof. split; [intro H; apply in_app_or in H; destruct H as [H|[H|[]]]; auto | intros [H|H]; apply in_or_app; [left; exact H | right; left; auto]]. Qed.
+
+  Lemma file_post_rec o c pos st j t :
+    plain nlev o -> co_fix o = true -> fst t = K_ST_RECOVERED ->
+    (In t (r_tags (file_post o c pos st j)) <->
+     In t (r_tags st) \/ exists f idx b, slot_of c pos j = SFile f idx b /\ S idx = length (cf_blocks f)
+                                       /\ fl_damaged (get_fl (r_flags st) (j, cf_name f)) = false
+                                       /\ fl_fixed (get_fl (r_flags st) (j, cf_name f)) = true /\ t = rec_tag j f).
+  Proof.
+    intros Hp Hfix Hk. unfold file_post. pose proof (slot_of_nth c pos j) as Hs.
+    destruct (nth j (c_disks c) None) as [d|].
+    2: { split; [auto | intros [H|[f [idx [b [X _]]]]]; [exact H | rewrite Hs in X; discriminate X]]. }
+    destruct (slot_at d pos) as [|f idx b|h] eqn:Es.
+    1,3: (split; [auto | intros [H|[f0 [idx0 [b0 [X _]]]]]; [exact H | rewrite Hs in X; discriminate X]]).
+    assert (Hex : forall P : Prop, (exists f0 idx0 b0, slot_of c pos j = SFile f0 idx0 b0 /\ S idx0 = length (cf_blocks f0)
+                    /\ fl_damaged (get_fl (r_flags st) (j, cf_name f0)) = false /\ fl_fixed (get_fl (r_flags st) (j, cf_name f0)) = true /\ t = rec_tag j f0) ->
+                  (S idx = length (cf_blocks f) -> fl_damaged (get_fl (r_flags st) (j, cf_name f)) = false ->
+                   fl_fixed (get_fl (r_flags st) (j, cf_name f)) = true -> t = rec_tag j f -> P) -> P).
+    { intros P [f0 [idx0 [b0 [X [X1 [X2 [X3 X4]]]]]]] H. rewrite Hs in X. injection X as Y1 Y2 Y3. subst f0 idx0 b0. auto. }
+    destruct (Nat.eqb (S idx) (length (cf_blocks f))) eqn:El; cbn [negb].
+    - apply Nat.eqb_eq in El. rewrite (plain_not_excl nlev o j _ Hp), (pl_synced nlev o Hp), Hfix. cbn [orb andb].
+      destruct (fl_damaged (get_fl (r_flags st) (j, cf_name f))) eqn:Ed.
+      + cbn [r_tags rs_tag rs_setfs rs_flag rs_setfl]. rewrite in_app1. split.
+        * intros [H|H]; [left; exact H | subst t; cbn in Hk; discriminate Hk].
+        * intros [H|H]; [left; exact H | apply (Hex _ H); intros _ X; discriminate X].
+      + destruct (fl_fixed (get_fl (r_flags st) (j, cf_name f))) eqn:Ef; cbn [negb].
+        2: { cbn [r_tags rs_flag rs_setfl]. split; [auto | intros [H|H]; [exact H | apply (Hex _ H); intros _ _ X; discriminate X]]. }
+        cbv zeta. cbn [r_fs rs_tag rs_flag rs_setfl].
+        assert (Hmain : forall s2 : rstate, (r_tags s2 = r_tags st ++ [rec_tag j f] \/ exists y, fst y <> K_ST_RECOVERED /\ r_tags s2 = (r_tags st ++ [rec_tag j f]) ++ [y]) ->
+                  (In t (r_tags s2) <-> In t (r_tags st) \/ exists f0 idx0 b0, slot_of c pos j = SFile f0 idx0 b0 /\ S idx0 = length (cf_blocks f0)
+                       /\ fl_damaged (get_fl (r_flags st) (j, cf_name f0)) = false /\ fl_fixed (get_fl (r_flags st) (j, cf_name f0)) = true /\ t = rec_tag j f0)).
+        { intros s2 Hs2. assert (Hin : In t (r_tags s2) <-> In t (r_tags st) \/ t = rec_tag j f).
+          { destruct Hs2 as [E|[y [Hy E]]]; rewrite E; [apply in_app1|]. rewrite !in_app1. split; [intros [H|H]; [exact H | subst t; contradiction] | auto]. }
+          rewrite Hin. split; intros [H|H]; auto; [right; exists f, idx, b; auto | right; apply (Hex _ H); auto]. }
+        destruct (fs_find (r_fs st) j (cf_name f)) as [g|]; [|apply Hmain; left; reflexivity].
+        match goal with |- context [if ?b0 then _ else _] => destruct b0 end; apply Hmain; [left; reflexivity|].
+        right. eexists. split; [|reflexivity]. cbn. discriminate.
+    - apply Nat.eqb_neq in El. split; [auto | intros [H|H]; [exact H | apply (Hex _ H); intros X; contradiction]].
+  Qed.
+
+  Lemma fold_file_post_rec o c pos t : plain nlev o -> co_fix o = true -> fst t = K_ST_RECOVERED -> forall js st,
+    (In t (r_tags (fold_left (file_post o c pos) js st)) <->
+     In t (r_tags st) \/ exists j f idx b, In j js /\ slot_of c pos j = SFile f idx b /\ S idx = length (cf_blocks f)
+                                         /\ fl_damaged (get_fl (r_flags st) (j, cf_name f)) = false
+                                         /\ fl_fixed (get_fl (r_flags st) (j, cf_name f)) = true /\ t = rec_tag j f).
+  Proof.
+    intros Hp Hfix Hk. induction js as [|j0 js IH]; intro st; cbn [fold_left].
+    - split; [auto | intros [H|[j [f [idx [b [[] _]]]]]]; exact H].
+    - destruct (file_post_frame o c pos st j0) as [_ [_ [B3 _]]].
+      pose proof (file_post_rec o c pos st j0 t Hp Hfix Hk) as F0.
+      pose proof (IH (file_post o c pos st j0)) as F1.
+      split.
+      + intro H. apply (proj1 F1) in H. destruct H as [H|[j [f [idx [b [Hj [X1 [X2 [X3 [X4 X5]]]]]]]]]].
+        * apply (proj1 F0) in H. destruct H as [H|[f [idx [b [X1 [X2 [X3 [X4 X5]]]]]]]]; [left; exact H | right].
+          exists j0, f, idx, b. split; [left; reflexivity|]. split; [exact X1|]. split; [exact X2|]. split; [exact X3|]. split; [exact X4 | exact X5].
+        * right. exists j, f, idx, b. destruct (B3 (j, cf_name f)) as [Y1 [Y2 _]]. rewrite Y1 in X3. rewrite Y2 in X4.
+          split; [right; exact Hj|]. split; [exact X1|]. split; [exact X2|]. split; [exact X3|]. split; [exact X4 | exact X5].
+      + intro H. apply (proj2 F1). destruct H as [H|[j [f [idx [b [[Hj|Hj] [X1 [X2 [X3 [X4 X5]]]]]]]]]].
+        * left. apply (proj2 F0). left. exact H.
+        * subst j0. left. apply (proj2 F0). right. exists f, idx, b. split; [exact X1|]. split; [exact X2|]. split; [exact X3|]. split; [exact X4 | exact X5].
+        * right. exists j, f, idx, b. destruct (B3 (j, cf_name f)) as [Y1 [Y2 _]]. rewrite Y1, Y2.
+          split; [exact Hj|]. split; [exact X1|]. split; [exact X2|]. split; [exact X3|]. split; [exact X4 | exact X5].
+  Qed.
+
+  (* the stripe step: status:recovered:<disk>:<file> is added exactly for the files whose last block is in the stripe and that are
+     flagged FIXED and not DAMAGED when the step ends *)
+  Theorem fix_step_recovered o c fs0 pos s t :
+    plain nlev o -> co_fix o = true -> fst t = K_ST_RECOVERED ->
+    let s' := stripe_step o c fs0 s pos in
+    (In t (r_tags s') <->
+     In t (r_tags s) \/ exists j f idx b, slot_of c pos j = SFile f idx b /\ S idx = length (cf_blocks f)
+                                        /\ fl_damaged (get_fl (r_flags s') (j, cf_name f)) = false
+                                        /\ fl_fixed (get_fl (r_flags s') (j, cf_name f)) = true /\ t = rec_tag j f).
+  Proof.
+    intros Hp Hfix Hk. cbn zeta.
+    (* the state before the loop of file_post: no status:recovered line was added *)
+    assert (HU : exists s7, stripe_step o c fs0 s pos = fold_left (file_post o c pos) (seq 0 (length (c_disks c))) s7 /\ Rn s s7).
+    { pose proof (data_phase_Rn o c pos s) as D1.
+      set (a := data_phase o c pos s) in *.
+      pose proof (parity_phase_spec nlev o pos (da_st a) (pl_popen nlev o Hp)) as Epp.
+      set (rec := map (prow (r_par (da_st a)) pos) (seq 0 nlev)) in *.
+      match type of Epp with _ = (_, ?x) => set (s1a := x) in * end.
+      assert (N1 : Rn (da_st a) s1a).
+      { apply (Rn_ext (da_st a) s1a _ eq_refl). apply Forall_forall. intros x Hx. apply in_map_iff in Hx. destruct Hx as [l [Hx _]]. subst x. cbn. discriminate. }
+      pose proof (repair_tags hashf padz bs nlev false pos (co_nosearch o) (search_view fs0 (r_fs (da_st a))) (da_failed a) rec (da_buf a) (r_jn (da_st a))) as Hrt.
+      destruct (repair hashf padz bs nlev false pos (co_nosearch o) (search_view fs0 (r_fs (da_st a))) (da_failed a) rec (da_buf a) (r_jn (da_st a)))
+        as [[[[res failed'] buf] jn'] rtags] eqn:Erep. cbn [snd] in Hrt.
+      set (s1b := rs_tag (rs_setjn s1a jn') rtags).
+      assert (N2 : Rn s1a s1b).
+      { apply (Rn_ext s1a s1b rtags eq_refl). rewrite Forall_forall in *. intros x Hx Hkx. destruct (Hrt x Hx) as [Y|Y]; rewrite Y in Hkx; discriminate Hkx. }
+      assert (Hcase : res = ROk \/ res <> ROk) by (destruct res; [left; reflexivity | right; discriminate | right; discriminate]).
+      destruct Hcase as [Eres|Nres].
+      - subst res.
+        erewrite (stripe_step_ok hashf padz truncf bs nlev false newino now o c fs0 pos s rec _ failed' buf jn' rtags);
+          [| exact (pl_audit nlev o Hp) | fold a; exact Epp | fold a; cbn [r_jn r_fs]; exact Erep].
+        fold a. fold s1b. eexists. split; [reflexivity|].
+        apply (Rn_trans _ (da_st a)); [exact D1|]. apply (Rn_trans _ s1a); [exact N1|]. apply (Rn_trans _ s1b); [exact N2|]. apply ok_body_Rn. exact Hfix.
+      - erewrite (stripe_step_fail hashf padz truncf bs nlev false newino now o c fs0 pos s rec _ res failed' buf jn' rtags);
+          [| exact (pl_audit nlev o Hp) | exact Nres | fold a; exact Epp | fold a; cbn [r_jn r_fs]; exact Erep].
+        fold s1b. eexists. split; [reflexivity|].
+        apply (Rn_trans _ (da_st a)); [exact D1|]. apply (Rn_trans _ s1a); [exact N1|]. apply (Rn_trans _ s1b); [exact N2|]. apply fail_body_Rn. }
+    destruct HU as [s7 [E7 N7]].
+    pose proof (stripe_step_Rt hashf padz truncf bs nlev false newino now o c pos fs0 s) as TT.
+    rewrite E7 in *.
+    pose proof (fold_file_post_rec o c pos t Hp Hfix Hk (seq 0 (length (c_disks c))) s7) as FF.
+    destruct (post_general hashf padz truncf bs nlev newino o c pos Hp Hfix (seq 0 (length (c_disks c))) s7 (seq_NoDup _ 0)) as [_ [_ [P3 _]]].
+    cbn zeta in P3. split.
+    - intro H0. apply FF in H0. destruct H0 as [H|[j [f [idx [b [_ [X1 [X2 [X3 [X4 X5]]]]]]]]]]; [left; apply (N7 t H Hk) | right].
+      exists j, f, idx, b. destruct (P3 (j, cf_name f)) as [Y1 [Y2 _]]. rewrite Y1, Y2. auto.
+    - intros [H|[j [f [idx [b [X1 [X2 [X3 [X4 X5]]]]]]]]]; [apply TT; exact H|]. apply FF. right.
+      exists j, f, idx, b. destruct (P3 (j, cf_name f)) as [Y1 [Y2 _]]. rewrite Y1 in X3. rewrite Y2 in X4.
+      split; [apply in_seq; pose proof (slot_lt c pos j f idx b X1); lia | auto].
+  Qed.
+
+
+  (* ---- status:unrecoverable is only said by file_post, for a file flagged DAMAGED: the same walk for that tag ------------------ *)
+  Definition Ru (s s' : rstate) : Prop := forall t, In t (r_tags s') -> fst t = K_ST_UNREC -> In t (r_tags s).
+  Lemma Ru_refl s : Ru s s.
+  Proof. intros t H _. exact H. Qed.
+  Lemma Ru_trans a b d : Ru a b -> Ru b d -> Ru a d.
+  Proof. intros H1 H2 t H Hk. apply (H1 t (H2 t H Hk) Hk). Qed.
+  Lemma Ru_ext s s' ext : r_tags s' = r_tags s ++ ext -> Forall (fun t => fst t <> K_ST_UNREC) ext -> Ru s s'.
+  Proof.
+    intros E Hf t Ht Hk. rewrite E in Ht. apply in_app_or in Ht. destruct Ht as [Ht|Ht]; [exact Ht|].
+    rewrite Forall_forall in Hf. exfalso. apply (Hf t Ht Hk).
+  Qed.
+  Ltac solve_ru :=
+    intros ?t ?Ht ?Hk; cbn [r_tags rs_tag rs_err rs_recov rs_unrec rs_setfs rs_setjn rs_setpar rs_flag rs_setfl] in *;
+    first [assumption
+          | match goal with H : In _ (_ ++ _) |- _ =>
+              apply in_app_or in H; destruct H as [H|H]; [exact H | exfalso; cbn in H;
+                repeat (match goal with H0 : _ \/ _ |- _ => destruct H0 as [H0|H0] end);
+                try contradiction; subst; cbn in *; discriminate] end].
+
+  Section UnrWalk.
+    Variable o : copts.
+    Variable c : content.
+    Variable pos : nat.
+
+  Ltac walku :=
+    repeat match goal with
+    | |- Ru _ _ => assumption
+    | |- Ru ?a ?a => apply Ru_refl
+    | |- Ru _ (rs_flag ?x _ _) => apply (Ru_trans _ x); [| solve_ru]
+    | |- Ru _ (rs_tag ?x _) => apply (Ru_trans _ x); [| solve_ru]
+    | |- Ru _ (rs_err ?x _) => apply (Ru_trans _ x); [| solve_ru]
+    | |- Ru _ (rs_recov ?x _) => apply (Ru_trans _ x); [| solve_ru]
+    | |- Ru _ (rs_unrec ?x _) => apply (Ru_trans _ x); [| solve_ru]
+    | |- Ru _ (rs_setfs ?x _) => apply (Ru_trans _ x); [| solve_ru]
+    | |- Ru _ (rs_setjn ?x _) => apply (Ru_trans _ x); [| solve_ru]
+    | |- Ru _ (rs_setpar ?x _) => apply (Ru_trans _ x); [| solve_ru]
+    | |- Ru _ (if ?b then _ else _) => destruct b
+    | |- Ru _ (match ?x with Some _ => _ | None => _ end) => destruct x
+    end.
+
+  Lemma fold_Ru {A} (f : rstate -> A -> rstate) : (forall s x, Ru s (f s x)) -> forall l s, Ru s (fold_left f l s).
+  Proof.
+    intro H. induction l as [|x t IH]; intro s; [apply Ru_refl|]. cbn [fold_left].
+    apply (Ru_trans _ (f s x)); [apply H | apply IH].
+  Qed.
+  Lemma fold_pair_Ru {A B} (f : B * rstate -> A -> B * rstate) :
+    (forall acc x, Ru (snd acc) (snd (f acc x))) -> forall l acc, Ru (snd acc) (snd (fold_left f l acc)).
+  Proof.
+    intro H. induction l as [|x t IH]; intro acc; [apply Ru_refl|]. cbn [fold_left].
+    apply (Ru_trans _ (snd (f acc x))); [apply H | apply IH].
+  Qed.
+
+  Lemma open_Ru j f s0 s4 : Kpos c pos (j, cf_name f) -> open_step bs newino now o pos j f s0 = Some s4 -> Ru s0 s4.
+  Proof.
+    intros HK H. unfold open_step in H.
+    destruct (bool_dec (co_fix o) true) as [Efix|Efix].
+    - destruct (negb (co_fix o && negb (is_excl o j (cf_name f))) && _) in H; [discriminate|].
+      match type of H with match ?x with Some _ => _ | None => _ end = _ => destruct x as [g0|]; [|discriminate] end.
+      injection H as H. subst s4. walku.
+    - apply not_true_is_false in Efix. rewrite Efix in H. destruct (fs_find (r_fs s0) j (cf_name f)) as [g|] eqn:Ep.
+      + cbn [andb negb orb] in H. destruct (fl_missing _) in H; [discriminate|]. cbv beta iota in H. rewrite Ep in H.
+        injection H as H. subst s4. walku.
+      + cbn [andb negb orb] in H. rewrite orb_true_r in H. discriminate.
+  Qed.
+
+  Lemma data_step_Ru a j : Ru (da_st a) (da_st (data_step o c pos a j)).
+  Proof.
+    unfold data_step. destruct (nth j (c_disks c) None) as [d|] eqn:En; [|apply Ru_refl].
+    destruct (slot_at d pos) as [|f idx b|h] eqn:Es; try (apply Ru_refl).
+    assert (HK : Kpos c pos (j, cf_name f)).
+    { exists f, idx, b. cbn [fst snd]. rewrite slot_of_nth, En, Es. auto. }
+    destruct (co_audit o && is_excl o j (cf_name f)); [apply Ru_refl|].
+    destruct (open_step bs newino now o pos j f (da_st a)) as [s4|] eqn:Eo.
+    - pose proof (open_Ru j f (da_st a) s4 HK Eo) as X.
+      destruct (read_block bs s4 j f idx); [|cbn [da_st]; walku].
+      destruct (fb_state b); try (destruct (hval_eqb _ _)); cbn [da_st]; walku.
+    - cbn [da_st]. walku.
+  Qed.
+
+  Lemma data_phase_Ru s : Ru s (da_st (data_phase o c pos s)).
+  Proof.
+    unfold data_phase.
+    assert (H : forall l a, Ru (da_st a) (da_st (fold_left (data_step o c pos) l a))).
+    { induction l as [|x t IH]; intro a; [apply Ru_refl|]. cbn [fold_left].
+      apply (Ru_trans _ (da_st (data_step o c pos a x))); [apply data_step_Ru | apply IH]. }
+    apply (H _ (mkDA [] [] true false s)).
+  Qed.
+
+  Lemma parity_phase_Ru s : Ru s (snd (parity_phase nlev o pos s)).
+  Proof.
+    unfold parity_phase. refine (fold_pair_Ru _ _ _ ([], s)). intros [r st] l. cbn beta iota.
+    destruct (nth l (co_popen o) false); [destruct (nth pos (nth l (r_par st) []) PNone)|]; cbn [snd]; walku.
+  Qed.
+  Lemma compare_phase_Ru rec buf s : Ru s (snd (compare_phase nlev pos rec buf s)).
+  Proof.
+    unfold compare_phase. refine (fold_pair_Ru _ _ _ ([], s)). intros [r st] l. cbn beta iota zeta.
+    destruct (negb _ && negb _); cbn [snd]; walku.
+  Qed.
+  Lemma write_phase_Ru failed buf s : co_fix o = true -> Ru s (write_phase padz truncf bs now o pos failed buf s).
+  Proof.
+    intro Efix. unfold write_phase. apply fold_Ru. intros st e.
+    destruct (negb (fe_bad e)); [walku|]. destruct (fe_file e) as [[f i]|]; [|walku].
+    destruct (is_excl o (fe_idx e) (cf_name f) || _); [walku|]. walku.
+  Qed.
+  Lemma parity_write_Ru rec2 buf s : co_fix o = true -> Ru s (parity_write_phase nlev o pos rec2 buf s).
+  Proof. intro Efix. unfold parity_write_phase. apply fold_Ru. intros st l. walku. Qed.
+
+  Lemma ok_body_Ru failed' rec buf cp s1b : co_fix o = true -> Ru s1b (ok_body padz truncf bs nlev now o pos failed' rec buf cp s1b).
+  Proof.
+    intro Hfix. unfold ok_body. cbv zeta.
+    set (partial := filter (fun e => fe_bad e && fe_ood e) failed').
+    set (s3 := fold_left _ partial s1b).
+    assert (X3 : Ru s1b s3) by (apply fold_Ru; intros st e; destruct (fe_file e) as [[f i]|]; walku).
+    set (s4 := match partial with [] => s3 | _ => rs_unrec (rs_err s3 (length partial)) 1 end).
+    assert (X4 : Ru s1b s4) by (unfold s4; destruct partial; walku).
+    destruct cp.
+    - pose proof (compare_phase_Ru rec buf s4) as Cp. destruct (compare_phase nlev pos rec buf s4) as [rec2 s5]. cbn [snd] in Cp.
+      rewrite Hfix. apply (Ru_trans _ (write_phase padz truncf bs now o pos failed' buf s5)); [|apply parity_write_Ru; exact Hfix].
+      apply (Ru_trans _ s5); [apply (Ru_trans _ s4); assumption | apply write_phase_Ru; exact Hfix].
+    - rewrite Hfix. apply (Ru_trans _ s4); [exact X4 | apply write_phase_Ru; exact Hfix].
+  Qed.
+
+  Lemma fail_body_Ru res failed' s1b : Ru s1b (fail_body pos res failed' s1b).
+  Proof.
+    unfold fail_body. cbv zeta.
+    match goal with |- Ru _ (fold_left _ _ (fold_left _ _ ?s3)) => assert (X3 : Ru s1b s3) by walku end.
+    match goal with |- Ru _ (fold_left _ _ ?s4) => apply (Ru_trans _ s4) end.
+    - match goal with |- Ru _ (fold_left _ _ ?s3) => apply (Ru_trans _ s3); [exact X3|] end. apply fold_Ru. intros st [[j f] i]. walku.
+    - apply fold_Ru. intros st [[j f] i]. walku.
+  Qed.
+
+  End UnrWalk.
+
+  Definition unr_tag (j : nat) (f : cfile) : N * list N := (K_ST_UNREC, [N.of_nat j; cf_name f]).
+
+  Lemma file_post_unr o c pos st j t :
+    plain nlev o -> co_fix o = true -> fst t = K_ST_UNREC -> In t (r_tags (file_post o c pos st j)) ->
+    In t (r_tags st) \/ exists f idx b, slot_of c pos j = SFile f idx b /\ S idx = length (cf_blocks f)
+                                       /\ fl_damaged (get_fl (r_flags st) (j, cf_name f)) = true /\ t = unr_tag j f.
+  Proof.
+    intros Hp Hfix Hk. unfold file_post. pose proof (slot_of_nth c pos j) as Hs.
+    destruct (nth j (c_disks c) None) as [d|]; [|auto].
+    destruct (slot_at d pos) as [|f idx b|h] eqn:Es; auto.
+    destruct (Nat.eqb (S idx) (length (cf_blocks f))) eqn:El; cbn [negb]; [|auto].
+    apply Nat.eqb_eq in El. rewrite (plain_not_excl nlev o j _ Hp), (pl_synced nlev o Hp), Hfix. cbn [orb andb].
+    destruct (fl_damaged (get_fl (r_flags st) (j, cf_name f))) eqn:Ed.
+    - cbn [r_tags rs_tag rs_setfs rs_flag rs_setfl]. rewrite in_app1. intros [H|H]; [left; exact H | right].
+      exists f, idx, b. auto.
+    - destruct (fl_fixed (get_fl (r_flags st) (j, cf_name f))); cbn [negb]; [|cbn [r_tags rs_flag rs_setfl]; auto].
+      cbv zeta. cbn [r_fs rs_tag rs_flag rs_setfl].
+      destruct (fs_find (r_fs st) j (cf_name f)) as [g|]; [match goal with |- context [if ?b0 then _ else _] => destruct b0 end|];
+        intro H; cbn [r_tags rs_tag rs_setfs rs_flag rs_setfl] in H; repeat rewrite in_app1 in H;
+        repeat (match goal with H0 : _ \/ _ |- _ => destruct H0 as [H0|H0] end);
+        first [left; assumption | subst t; cbn in Hk; discriminate Hk].
+  Qed.
+
+  Lemma fold_file_post_unr o c pos t : plain nlev o -> co_fix o = true -> fst t = K_ST_UNREC -> forall js st,
+    In t (r_tags (fold_left (file_post o c pos) js st)) ->
+    In t (r_tags st) \/ exists j f idx b, In j js /\ slot_of c pos j = SFile f idx b
+                                         /\ fl_damaged (get_fl (r_flags st) (j, cf_name f)) = true /\ t = unr_tag j f.
+  Proof.
+    intros Hp Hfix Hk. induction js as [|j0 js IH]; intro st; cbn [fold_left]; [auto|].
+    destruct (file_post_frame o c pos st j0) as [_ [_ [B3 _]]].
+    intro H. apply IH in H. destruct H as [H|[j [f [idx [b [Hj [X1 [X2 X3]]]]]]]].
+    - apply (file_post_unr o c pos st j0 t Hp Hfix Hk) in H. destruct H as [H|[f [idx [b [X1 [_ [X2 X3]]]]]]]; [left; exact H | right].
+      exists j0, f, idx, b. split; [left; reflexivity | auto].
+    - right. exists j, f, idx, b. destruct (B3 (j, cf_name f)) as [Y1 _]. rewrite Y1 in X2. split; [right; exact Hj | auto].
+  Qed.
+
+  (* the stripe step: a new status:unrecoverable:<disk>:<file> line is for a file of the stripe flagged DAMAGED when the step ends *)
+  Theorem fix_step_unrec_tag o c fs0 pos s t :
+    plain nlev o -> co_fix o = true -> fst t = K_ST_UNREC ->
+    let s' := stripe_step o c fs0 s pos in
+    In t (r_tags s') ->
+    In t (r_tags s) \/ exists j f idx b, slot_of c pos j = SFile f idx b
+                                        /\ fl_damaged (get_fl (r_flags s') (j, cf_name f)) = true /\ t = unr_tag j f.
+  Proof.
+    intros Hp Hfix Hk. cbn zeta.
+    assert (HU : exists s7, stripe_step o c fs0 s pos = fold_left (file_post o c pos) (seq 0 (length (c_disks c))) s7 /\ Ru s s7).
+    { pose proof (data_phase_Ru o c pos s) as D1.
+      set (a := data_phase o c pos s) in *.
+      pose proof (parity_phase_spec nlev o pos (da_st a) (pl_popen nlev o Hp)) as Epp.
+      set (rec := map (prow (r_par (da_st a)) pos) (seq 0 nlev)) in *.
+      match type of Epp with _ = (_, ?x) => set (s1a := x) in * end.
+      assert (N1 : Ru (da_st a) s1a).
+      { apply (Ru_ext (da_st a) s1a _ eq_refl). apply Forall_forall. intros x Hx. apply in_map_iff in Hx. destruct Hx as [l [Hx _]]. subst x. cbn. discriminate. }
+      pose proof (repair_tags hashf padz bs nlev false pos (co_nosearch o) (search_view fs0 (r_fs (da_st a))) (da_failed a) rec (da_buf a) (r_jn (da_st a))) as Hrt.
+      destruct (repair hashf padz bs nlev false pos (co_nosearch o) (search_view fs0 (r_fs (da_st a))) (da_failed a) rec (da_buf a) (r_jn (da_st a)))
+        as [[[[res failed'] buf] jn'] rtags] eqn:Erep. cbn [snd] in Hrt.
+      set (s1b := rs_tag (rs_setjn s1a jn') rtags).
+      assert (N2 : Ru s1a s1b).
+      { apply (Ru_ext s1a s1b rtags eq_refl). rewrite Forall_forall in *. intros x Hx Hkx. destruct (Hrt x Hx) as [Y|Y]; rewrite Y in Hkx; discriminate Hkx. }
+      assert (Hcase : res = ROk \/ res <> ROk) by (destruct res; [left; reflexivity | right; discriminate | right; discriminate]).
+      destruct Hcase as [Eres|Nres].
+      - subst res.
+        erewrite (stripe_step_ok hashf padz truncf bs nlev false newino now o c fs0 pos s rec _ failed' buf jn' rtags);
+          [| exact (pl_audit nlev o Hp) | fold a; exact Epp | fold a; cbn [r_jn r_fs]; exact Erep].
+        fold a. fold s1b. eexists. split; [reflexivity|].
+        apply (Ru_trans _ (da_st a)); [exact D1|]. apply (Ru_trans _ s1a); [exact N1|]. apply (Ru_trans _ s1b); [exact N2|]. apply ok_body_Ru. exact Hfix.
+      - erewrite (stripe_step_fail hashf padz truncf bs nlev false newino now o c fs0 pos s rec _ res failed' buf jn' rtags);
+          [| exact (pl_audit nlev o Hp) | exact Nres | fold a; exact Epp | fold a; cbn [r_jn r_fs]; exact Erep].
+        fold s1b. eexists. split; [reflexivity|].
+        apply (Ru_trans _ (da_st a)); [exact D1|]. apply (Ru_trans _ s1a); [exact N1|]. apply (Ru_trans _ s1b); [exact N2|]. apply fail_body_Ru. }
+    destruct HU as [s7 [E7 N7]]. rewrite E7.
+    destruct (post_general hashf padz truncf bs nlev newino o c pos Hp Hfix (seq 0 (length (c_disks c))) s7 (seq_NoDup _ 0)) as [_ [_ [P3 _]]].
+    cbn zeta in P3.
+    intro H0. apply (fold_file_post_unr o c pos t Hp Hfix Hk) in H0.
+    destruct H0 as [H|[j [f [idx [b [_ [X1 [X2 X3]]]]]]]]; [left; apply (N7 t H Hk) | right].
+    exists j, f, idx, b. destruct (P3 (j, cf_name f)) as [Y1 _]. rewrite Y1. auto.
+  Qed.
+
+  Lemma obj_step_unr o c s ob t :
+    fst t = K_ST_UNREC -> In t (r_tags (obj_step newino now o c s ob)) -> In t (r_tags s).
+  Proof.
+    intro Hk. unfold obj_step. destruct (ob_excl ob); [auto|].
+    destruct (ob_kind ob);
+      repeat (match goal with
+              | |- context [if ?b then _ else _] => destruct b
+              | |- context [match ?x with Some _ => _ | None => _ end] => destruct x
+              | |- context [match ?x with OOk => _ | OBad => _ end] => destruct x
+              end);
+      intro Ht; cbn [r_tags rs_tag rs_err rs_recov rs_unrec rs_setfs] in Ht;
+      repeat (match goal with H : In _ (_ ++ _) |- _ => apply in_app_or in H; destruct H as [H|H] end);
+      repeat (match goal with H : In _ (_ :: _) |- _ => destruct H as [H|H] end);
+      try assumption; try contradiction;
+      subst t; cbn in Hk; discriminate Hk.
+  Qed.
+
   (* ---- the whole run ------------------------------------------------------------------------------------------------------ *)
   Lemma block_disabled_no_file o c pos :
     plain nlev o -> block_enabled nlev o c pos = false -> forall j f i b, slot_of c pos j <> SFile f i b.
@@ -1178,6 +1708,24 @@ Section Pending.
     apply existsb_exists. exists j. split; [apply in_seq; pose proof (slot_lt c pos j f i b Hs); lia|].
     rewrite slot_of_nth in Hs. destruct (nth j (c_disks c) None) as [d|]; [|discriminate]. rewrite Hs.
     rewrite (plain_not_excl nlev o j _ Hp). reflexivity.
+  Qed.
+
+  Lemma obj_step_rec o c s ob t :
+    fst t = K_ST_RECOVERED -> In t (r_tags (obj_step newino now o c s ob)) ->
+    In t (r_tags s) \/ t = (K_ST_RECOVERED, [N.of_nat (ob_disk ob); ob_name ob]).
+  Proof.
+    intro Hk. unfold obj_step. destruct (ob_excl ob); [auto|].
+    destruct (ob_kind ob);
+      repeat (match goal with
+              | |- context [if ?b then _ else _] => destruct b
+              | |- context [match ?x with Some _ => _ | None => _ end] => destruct x
+              | |- context [match ?x with OOk => _ | OBad => _ end] => destruct x
+              end);
+      intro Ht; cbn [r_tags rs_tag rs_err rs_recov rs_unrec rs_setfs] in Ht;
+      repeat (match goal with H : In _ (_ ++ _) |- _ => apply in_app_or in H; destruct H as [H|H] end);
+      repeat (match goal with H : In _ (_ :: _) |- _ => destruct H as [H|H] end);
+      try (left; assumption); try contradiction;
+      subst t; first [right; reflexivity | cbn in Hk; discriminate Hk].
   Qed.
 
   Section RunP.
@@ -1220,6 +1768,12 @@ Section Pending.
       (* a file flagged DAMAGED whose last block is passed: reported unrecoverable and renamed away *)
       rp_gone : forall p j f i b, slot_of c p j = SFile f i b -> p < k -> S i = length (cf_blocks f) -> dam s j f = true ->
                   fs_find (r_fs s) j (cf_name f) = None /\ In (K_ST_UNREC, [N.of_nat j; cf_name f]) (r_tags s);
+      (* a file larger than recorded was never opened; a visited block of a file not flagged DAMAGED lies inside the file, which
+         is not larger than recorded *)
+      rp_grown : forall p j f i b, slot_of c p j = SFile f i b -> (cf_size f < fsz (r_fs s) j (cf_name f))%N ->
+                   fl_opened (get_fl (r_flags s) (j, cf_name f)) = false;
+      rp_size : forall p j f i b, slot_of c p j = SFile f i b -> p < k -> dam s j f = false ->
+                  (N.of_nat i * bs + block_len bs (cf_size f) i <= fsz (r_fs s) j (cf_name f))%N /\ (fsz (r_fs s) j (cf_name f) <= cf_size f)%N;
       (* an intact file is not touched *)
       rp_intact : forall p j f i b, slot_of c p j = SFile f i b -> intactP k j f ->
                     fs_find (r_fs s) j (cf_name f) = fs_find fs0 j (cf_name f)
@@ -1241,8 +1795,11 @@ Section Pending.
            - apply (rp_clean k s I).
            - intros p j f i b Hs Hp. destruct (Nat.eq_dec p k) as [E|E]; [subst p; exfalso; apply (Hno j f i b Hs)|].
              apply (rp_gone k s I p j f i b Hs). lia.
+           - apply (rp_grown k s I).
+           - intros p j f i b Hs Hp. destruct (Nat.eq_dec p k) as [E|E]; [subst p; exfalso; apply (Hno j f i b Hs)|].
+             apply (rp_size k s I p j f i b Hs). lia.
            - intros p j f i b Hs [Hi1 Hi2]. apply (rp_intact k s I p j f i b Hs). split; [exact Hi1 | intros p' i' b' Hp'; apply Hi2; lia]. }
-      destruct (fix_step_pending_full o c fs0 k s Hplain Hfix (rp_len k s I)) as [K1 [K2 [K3 [[K4a K4b] [_ [_ [_ [K8 [K9 K10]]]]]]]]].
+      destruct (fix_step_pending_full o c fs0 k s Hplain Hfix (rp_len k s I)) as [K1 [K2 [K3 [[K4a K4b] [_ [K6 [K7 [K8 [K9 [K10 K11]]]]]]]]]].
       pose proof (stripe_step_dam_mono false o c k fs0 s) as Kd.
       set (s' := stripe_step o c fs0 s k) in *.
       (* the block i of the file of a slot (p, j, f, i, b) with p <> k: untouched, or the file is flagged *)
@@ -1305,6 +1862,51 @@ Section Pending.
           * apply Hoth; [intros f' i' b' X; injection X as X1 X2 X3; subst f'; exact En|].
             intro X. subst p. rewrite Ek in Hs. injection Hs as X1 X2 X3. subst fk. apply En. reflexivity.
         + apply Hoth; [intros f' i' b' X; discriminate X | intro X; subst p; rewrite Ek in Hs; discriminate Hs].
+      - (* larger than recorded: never opened *)
+        intros p j f i b Hs Hgr.
+        assert (Hoth : (forall f' i' b', slot_of c k j = SFile f' i' b' -> cf_name f' <> cf_name f) ->
+                       fl_opened (get_fl (r_flags s') (j, cf_name f)) = false).
+        { intro Hno. rewrite (K6 j (cf_name f) Hno). apply (rp_grown k s I p j f i b Hs). unfold fsz in *. rewrite <- (K2 j (cf_name f) Hno). exact Hgr. }
+        destruct (slot_of c k j) as [|fk ik bk|h] eqn:Ek.
+        + apply Hoth. intros f' i' b' X. discriminate X.
+        + destruct (N.eq_dec (cf_name fk) (cf_name f)) as [En|En].
+          * destruct (g_same bs c bm Hgeom k p j fk ik bk f i b Ek Hs En) as [Ef _]. subst fk. exfalso.
+            destruct (g_wf bs c bm Hgeom k j f ik bk) as [_ Hwk]; [rewrite Ek; reflexivity|].
+            destruct (K7 j f ik bk) as [[X _]|[Z1 Z2]]; [rewrite Ek; reflexivity | unfold fsz in Hgr; rewrite X in Hgr; lia|].
+            destruct (opened_size_cases s j f) as [[Y Yo]|[Y1 Y2]]; [|lia].
+            assert (Hg : (cf_size f < fsz (r_fs s) j (cf_name f))%N) by lia.
+            rewrite (rp_grown k s I p j f i b Hs Hg) in Yo. specialize (Yo Hg). discriminate Yo.
+          * apply Hoth. intros f' i' b' X. injection X as X1 X2 X3. subst f'. exact En.
+        + apply Hoth. intros f' i' b' X. discriminate X.
+      - (* visited blocks of files not flagged lie inside the file *)
+        intros p j f i b Hs Hp Hd.
+        assert (Hd0 : dam s j f = false) by (destruct (dam s j f) eqn:Y; [rewrite (Kd _ Y) in Hd; discriminate Hd | reflexivity]).
+        destruct (g_wf bs c bm Hgeom p j f i b Hs) as [Hl Hw].
+        assert (Hoth : (forall f' i' b', slot_of c k j = SFile f' i' b' -> cf_name f' <> cf_name f) -> p <> k ->
+                       (N.of_nat i * bs + block_len bs (cf_size f) i <= fsz (r_fs s') j (cf_name f))%N /\ (fsz (r_fs s') j (cf_name f) <= cf_size f)%N).
+        { intros Hno Hpk. unfold fsz. rewrite (K2 j (cf_name f) Hno). apply (rp_size k s I p j f i b Hs ltac:(lia) Hd0). }
+        destruct (slot_of c k j) as [|fk ik bk|h] eqn:Ek.
+        + apply Hoth; [intros f' i' b' X; discriminate X | intro X; subst p; rewrite Ek in Hs; discriminate Hs].
+        + destruct (N.eq_dec (cf_name fk) (cf_name f)) as [En|En].
+          * destruct (g_same bs c bm Hgeom k p j fk ik bk f i b Ek Hs En) as [Ef _]. subst fk.
+            destruct (g_same bs c bm Hgeom p k j f i b f ik bk Hs) as [_ H2]; [rewrite Ek; reflexivity | reflexivity|].
+            destruct (g_wf bs c bm Hgeom k j f ik bk) as [Hlk Hwk]; [rewrite Ek; reflexivity|].
+            destruct (K11 j f ik bk) as [X|Hin']; [rewrite Ek; reflexivity | rewrite Hd in X; discriminate X|].
+            destruct (K7 j f ik bk) as [[X _]|[Z1 Z2]]; [rewrite Ek; reflexivity | unfold fsz in Hin'; rewrite X in Hin'; lia|].
+            (* the size of the file when opened: not larger than recorded *)
+            assert (Hz1 : (ff_size (opened_file s j f) <= cf_size f)%N
+                          /\ ((cf_size f < fsz (r_fs s) j (cf_name f))%N \/ ff_size (opened_file s j f) = fsz (r_fs s) j (cf_name f))).
+            { destruct (opened_size_cases s j f) as [[Y Yo]|[Y1 Y2]]; [|split; [lia | left; exact Y2]].
+              split; [|right; exact Y]. destruct (N.le_gt_cases (fsz (r_fs s) j (cf_name f)) (cf_size f)) as [X|X]; [lia|].
+              rewrite (rp_grown k s I p j f i b Hs X) in Yo. specialize (Yo X). discriminate Yo. }
+            destruct Hz1 as [Hz1 Hz2].
+            destruct (Nat.eq_dec p k) as [Epk|Epk].
+            -- subst p. rewrite Ek in Hs. injection Hs as Hi Hb. subst ik bk. split; [exact Hin' | lia].
+            -- destruct (rp_size k s I p j f i b Hs ltac:(lia) Hd0) as [R1 R2]. split; [|lia].
+               destruct Hz2 as [Y|Y]; lia.
+          * apply Hoth; [intros f' i' b' X; injection X as X1 X2 X3; subst f'; exact En|].
+            intro X. subst p. rewrite Ek in Hs. injection Hs as X1 X2 X3. subst fk. apply En. reflexivity.
+        + apply Hoth; [intros f' i' b' X; discriminate X | intro X; subst p; rewrite Ek in Hs; discriminate Hs].
       - intros p j f i b Hs [Hi1 Hi2].
         destruct (rp_intact k s I p j f i b Hs) as [R1 [R2 R3]]; [split; [exact Hi1 | intros p' i' b' Hp'; apply Hi2; lia]|].
         assert (Hoth : (forall f' i' b', slot_of c k j = SFile f' i' b' -> cf_name f' <> cf_name f) ->
@@ -1343,9 +1945,70 @@ Section Pending.
         exists p, j, f, i, b. split; [|auto]. destruct (Nat.eq_dec p k) as [E|E]; [subst p; exfalso; apply (Hno j f i b Hs) | lia].
     Qed.
 
+    (* status:recovered:<disk>:<file> is in the log exactly for the files whose last block is passed and that are flagged FIXED and
+       not DAMAGED *)
+    Definition recP (k : nat) (s : rstate) : Prop :=
+      forall p0 j f i0 b0, slot_of c p0 j = SFile f i0 b0 ->
+        (In (rec_tag j f) (r_tags s) <->
+         exists p i b, slot_of c p j = SFile f i b /\ p < k /\ S i = length (cf_blocks f)
+                       /\ fl_fixed (get_fl (r_flags s) (j, cf_name f)) = true /\ dam s j f = false).
+
+    Lemma recP_0 : recP 0 s0.
+    Proof. intros p0 j f i0 b0 _. cbn. split; [intros [] | intros [p [i [b [_ [X _]]]]]; lia]. Qed.
+
+    Lemma recP_step k s : rinvP k s -> recP k s -> k < bm -> recP (S k) (step s k).
+    Proof.
+      intros I R Hk. cbv beta.
+      destruct (block_enabled nlev o c k) eqn:Een.
+      2: { pose proof (block_disabled_no_file o c k Hplain Een) as Hno. intros p0 j f i0 b0 Hs0. rewrite (R p0 j f i0 b0 Hs0). split.
+           - intros [p [i [b [X1 [X2 X3]]]]]. exists p, i, b. split; [exact X1|]. split; [lia | exact X3].
+           - intros [p [i [b [X1 [X2 X3]]]]]. exists p, i, b. split; [exact X1|]. split; [|exact X3].
+             destruct (Nat.eq_dec p k) as [E|E]; [subst p; exfalso; apply (Hno j f i b X1) | lia]. }
+      destruct (fix_step_pending_full o c fs0 k s Hplain Hfix (rp_len k s I)) as [_ [_ [_ [_ [_ [_ [_ [K8 _]]]]]]]].
+      pose proof (stripe_step_Rt hashf padz truncf bs nlev false newino now o c k fs0 s) as Mono.
+      set (s' := stripe_step o c fs0 s k) in *.
+      intros p0 j f i0 b0 Hs0.
+      pose proof (fix_step_recovered o c fs0 k s (rec_tag j f) Hplain Hfix eq_refl) as FR. cbn zeta in FR. fold s' in FR.
+      (* the bits of a file whose last block lies before k *)
+      assert (Hpast : forall p i b, slot_of c p j = SFile f i b -> p < k -> S i = length (cf_blocks f) ->
+                 fl_fixed (get_fl (r_flags s') (j, cf_name f)) = fl_fixed (get_fl (r_flags s) (j, cf_name f)) /\ dam s' j f = dam s j f).
+      { intros p i b Hs Hp Hl. apply (K8 j (cf_name f)). intros f' i' b' Ek En.
+        destruct (g_same bs c bm Hgeom p k j f i b f' i' b' Hs Ek (eq_sym En)) as [Ef H1]. subst f'.
+        pose proof (g_idx bs c bm Hgeom k j f i' b' Ek). specialize (H1 Hp). lia. }
+      split.
+      - intro H. apply (proj1 FR) in H. destruct H as [H|[j' [f' [idx [b [X1 [X2 [X3 [X4 X5]]]]]]]]].
+        + apply (proj1 (R p0 j f i0 b0 Hs0)) in H. destruct H as [p [i [b [Y1 [Y2 [Y3 [Y4 Y5]]]]]]].
+          destruct (Hpast p i b Y1 Y2 Y3) as [Z1 Z2]. exists p, i, b. split; [exact Y1|]. split; [lia|]. split; [exact Y3|]. split; congruence.
+        + unfold rec_tag in X5. injection X5 as E1 E2. apply Nat2N.inj in E1. subst j'.
+          destruct (g_same bs c bm Hgeom p0 k j f i0 b0 f' idx b Hs0 X1 E2) as [Ef _]. subst f'.
+          exists k, idx, b. split; [exact X1|]. split; [lia|]. split; [exact X2|]. split; assumption.
+      - intros [p [i [b [Y1 [Y2 [Y3 [Y4 Y5]]]]]]]. apply (proj2 FR). destruct (Nat.eq_dec p k) as [E|E].
+        + subst p. right. exists j, f, i, b. split; [exact Y1|]. split; [exact Y3|]. split; [exact Y5|]. split; [exact Y4 | reflexivity].
+        + left. apply (proj2 (R p0 j f i0 b0 Hs0)). assert (Hp : p < k) by lia. destruct (Hpast p i b Y1 Hp Y3) as [Z1 Z2].
+          exists p, i, b. split; [exact Y1|]. split; [exact Hp|]. split; [exact Y3|]. split; congruence.
+    Qed.
+
+    Lemma recP_loop : forall k, k <= bm -> recP k (fold_left step (seq 0 k) s0).
+    Proof.
+      induction k as [|k IH]; intro Hk; [apply recP_0|].
+      rewrite seq_S, fold_left_app. cbn [fold_left plus]. apply (recP_step k _ (rinvP_loop k ltac:(lia)) (IH ltac:(lia)) ltac:(lia)).
+    Qed.
+
     Variable objs : list obj.
     Hypothesis Hobj_names : forall ob p f i b, In ob objs -> slot_of c p (ob_disk ob) = SFile f i b -> cf_name f <> ob_name ob.
     Hypothesis Hbm : c_blockmax c = bm.
+
+    Lemma recP_objs : forall l s, incl l objs -> recP bm s -> recP bm (fold_left (obj_step newino now o c) l s).
+    Proof.
+      induction l as [|ob t IH]; intros s Hin R; [exact R|]. cbn [fold_left].
+      assert (Hob : In ob objs) by (apply Hin; left; reflexivity).
+      apply IH; [intros x Hx; apply Hin; right; exact Hx|].
+      destruct (obj_step_frame newino now o c Hfix s ob) as [_ [F2 _]].
+      pose proof (obj_step_Rt newino now o c s ob) as F6.
+      intros p0 j f i0 b0 Hs0. rewrite F2. rewrite <- (R p0 j f i0 b0 Hs0). split; [|apply F6].
+      intro H. destruct (obj_step_rec o c s ob (rec_tag j f) eq_refl H) as [X|X]; [exact X|]. exfalso.
+      unfold rec_tag in X. injection X as E1 E2. apply Nat2N.inj in E1. apply (Hobj_names ob p0 f i0 b0 Hob); [rewrite <- E1; exact Hs0 | exact E2].
+    Qed.
 
     Lemma rinvP_objs : forall l s, incl l objs -> rinvP bm s ->
       rinvP bm (fold_left (obj_step newino now o c) l s) /\ r_flags (fold_left (obj_step newino now o c) l s) = r_flags s.
@@ -1366,6 +2029,8 @@ Section Pending.
         - intro Hu. rewrite F2. apply (rp_clean bm s I). lia.
         - intros p j f i b Hs Hp Hl Hd. rewrite F2 in Hd. rewrite (Efs p j f i b Hs).
           destruct (rp_gone bm s I p j f i b Hs Hp Hl Hd) as [Y1 Y2]. split; [exact Y1 | apply F6; exact Y2].
+        - intros p j f i b Hs. unfold fsz. rewrite F2, (Efs p j f i b Hs). apply (rp_grown bm s I p j f i b Hs).
+        - intros p j f i b Hs. unfold fsz. rewrite F2, (Efs p j f i b Hs). apply (rp_size bm s I p j f i b Hs).
         - intros p j f i b Hs. rewrite F2, (Efs p j f i b Hs). apply (rp_intact bm s I p j f i b Hs). }
       destruct (IH s1 (fun x Hx => Hin x (or_intror Hx)) I1) as [I2 E2]. split; [exact I2 | congruence].
     Qed.
@@ -1413,6 +2078,47 @@ Section Pending.
       - intros p j f i b Hs. apply (rp_done bm _ I p j f i b Hs (g_bm bs c bm Hgeom p j f i b Hs)).
     Qed.
 
+    (* a file not flagged DAMAGED has exactly its recorded size at the end of the run *)
+    Theorem fix_run_size_exact :
+      let out := check_run hashf padz truncf bs nlev false newino now o c par fs0 objs (seq 0 bm) in
+      forall p j f i b, slot_of c p j = SFile f i b -> dam (out_st out) j f = false ->
+        exists g, fs_find (r_fs (out_st out)) j (cf_name f) = Some g /\ ff_size g = cf_size f.
+    Proof.
+      cbn zeta. intros p j f i b Hs Hd. destruct fix_run_rinvP as [I _]. cbn zeta in I.
+      destruct (g_last bs c bm Hgeom p j f i b Hs) as [pl [il [bl [Hsl [_ Hend]]]]].
+      destruct (rp_size bm _ I pl j f il bl Hsl (g_bm bs c bm Hgeom pl j f il bl Hsl) Hd) as [Z1 Z2].
+      destruct (g_wf bs c bm Hgeom pl j f il bl Hsl) as [Hl _].
+      unfold fsz in Z1, Z2. destruct (fs_find (r_fs (out_st (check_run hashf padz truncf bs nlev false newino now o c par fs0 objs (seq 0 bm)))) j (cf_name f)) as [g|]; [|lia].
+      exists g. split; [reflexivity | lia].
+    Qed.
+
+    (* "reported recovered": status:recovered:<disk>:<file> is in the log of the run exactly when, at the end, the file is flagged
+       FIXED (the run rewrote a block of it or cut it back to its recorded size) and not DAMAGED *)
+    Theorem fix_run_recovered_iff :
+      let out := check_run hashf padz truncf bs nlev false newino now o c par fs0 objs (seq 0 bm) in
+      forall p j f i b, slot_of c p j = SFile f i b ->
+        (In (rec_tag j f) (r_tags (out_st out)) <->
+         fl_fixed (get_fl (r_flags (out_st out)) (j, cf_name f)) = true /\ dam (out_st out) j f = false).
+    Proof.
+      cbn zeta. rewrite (check_run_unfold hashf padz truncf bs nlev false newino now o c par fs0 objs bm Hbm). cbv zeta. fold s0.
+      pose proof (recP_loop bm (le_n bm)) as R1. pose proof (finvP_loop bm (le_n bm)) as J1.
+      set (s1 := fold_left step (seq 0 bm) s0) in *.
+      pose proof (recP_objs objs s1 (fun x H => H) R1) as R2.
+      destruct (rinvP_objs objs s1 (fun x H => H) (rinvP_loop bm (le_n bm))) as [_ E2]. fold s1 in E2.
+      set (s2 := fold_left (obj_step newino now o c) objs s1) in *.
+      assert (Ec : cleanup o s2 = s2).
+      { apply cleanup_noop. intros k f Hin. rewrite E2 in Hin. destruct J1 as [Hnd Hcr].
+        pose proof (get_fl_in (r_flags s1) k f Hnd Hin) as Eg.
+        destruct (fl_created f) eqn:Ecr; [|reflexivity]. cbn [andb].
+        destruct (Hcr k ltac:(rewrite Eg; exact Ecr)) as [Hf|[p [j [f' [i [b [Hp [Hs _]]]]]]]].
+        - rewrite Eg in Hf. rewrite Hf. reflexivity.
+        - pose proof (g_bm bs c bm Hgeom p j f' i b Hs). lia. }
+      rewrite Ec. cbn [out_st]. intros p j f i b Hs. rewrite (R2 p j f i b Hs). split.
+      - intros [p' [i' [b' [_ [_ [_ X]]]]]]. exact X.
+      - intros [X1 X2]. destruct (g_last bs c bm Hgeom p j f i b Hs) as [pl [il [bl [Hsl [Hll _]]]]].
+        exists pl, il, bl. split; [exact Hsl|]. split; [apply (g_bm bs c bm Hgeom pl j f il bl Hsl)|]. split; [exact Hll | auto].
+    Qed.
+
     (* a file flagged DAMAGED: status:unrecoverable in the log, renamed away, counted, failing exit status *)
     Theorem fix_run_damaged_reported :
       let out := check_run hashf padz truncf bs nlev false newino now o c par fs0 objs (seq 0 bm) in
@@ -1425,6 +2131,63 @@ Section Pending.
       destruct (g_last bs c bm Hgeom p j f i b Hs) as [pl [il [bl [Hsl [Hll _]]]]].
       destruct (rp_gone bm _ I pl j f il bl Hsl (g_bm bs c bm Hgeom pl j f il bl Hsl) Hll Hd) as [X1 X2].
       destruct (Hc _ Hd) as [X3 X4]. auto.
+    Qed.
+
+    (* the converse: every status:unrecoverable line of the log is for a file of the content file flagged DAMAGED at the end *)
+    Definition unrP (s : rstate) : Prop :=
+      forall t, fst t = K_ST_UNREC -> In t (r_tags s) ->
+        exists p j f i b, slot_of c p j = SFile f i b /\ t = unr_tag j f /\ dam s j f = true.
+
+    Lemma unrP_loop : forall k, unrP (fold_left step (seq 0 k) s0).
+    Proof.
+      induction k as [|k IH]; [intros t _ []|].
+      rewrite seq_S, fold_left_app. cbn [fold_left plus]. set (s := fold_left step (seq 0 k) s0) in *.
+      destruct (block_enabled nlev o c k); [|exact IH].
+      intros t Hk Ht. pose proof (stripe_step_dam_mono false o c k fs0 s) as Mono.
+      destruct (fix_step_unrec_tag o c fs0 k s t Hplain Hfix Hk Ht) as [H|[j [f [idx [b [X1 [X2 X3]]]]]]].
+      - destruct (IH t Hk H) as [p [j [f [i [b [Y1 [Y2 Y3]]]]]]]. exists p, j, f, i, b. split; [exact Y1|]. split; [exact Y2 | apply Mono; exact Y3].
+      - exists k, j, f, idx, b. auto.
+    Qed.
+
+    Lemma unrP_objs : forall l s, unrP s -> unrP (fold_left (obj_step newino now o c) l s).
+    Proof.
+      induction l as [|ob t IH]; intros s R; [exact R|]. cbn [fold_left]. apply IH.
+      destruct (obj_step_frame newino now o c Hfix s ob) as [_ [F2 _]].
+      intros x Hk Hx. rewrite F2. apply (R x Hk). apply (obj_step_unr o c s ob x Hk Hx).
+    Qed.
+
+    Theorem fix_run_unrec_only :
+      let out := check_run hashf padz truncf bs nlev false newino now o c par fs0 objs (seq 0 bm) in
+      forall t, fst t = K_ST_UNREC -> In t (r_tags (out_st out)) ->
+        exists p j f i b, slot_of c p j = SFile f i b /\ t = unr_tag j f /\ dam (out_st out) j f = true.
+    Proof.
+      cbn zeta. rewrite (check_run_unfold hashf padz truncf bs nlev false newino now o c par fs0 objs bm Hbm). cbv zeta. fold s0.
+      pose proof (unrP_loop bm) as R1. pose proof (finvP_loop bm (le_n bm)) as J1.
+      set (s1 := fold_left step (seq 0 bm) s0) in *.
+      pose proof (unrP_objs objs s1 R1) as R2.
+      destruct (rinvP_objs objs s1 (fun x H => H) (rinvP_loop bm (le_n bm))) as [_ E2]. fold s1 in E2.
+      set (s2 := fold_left (obj_step newino now o c) objs s1) in *.
+      assert (Ec : cleanup o s2 = s2).
+      { apply cleanup_noop. intros k f Hin. rewrite E2 in Hin. destruct J1 as [Hnd Hcr].
+        pose proof (get_fl_in (r_flags s1) k f Hnd Hin) as Eg.
+        destruct (fl_created f) eqn:Ecr; [|reflexivity]. cbn [andb].
+        destruct (Hcr k ltac:(rewrite Eg; exact Ecr)) as [Hf|[p [j [f' [i [b [Hp [Hs _]]]]]]]].
+        - rewrite Eg in Hf. rewrite Hf. reflexivity.
+        - pose proof (g_bm bs c bm Hgeom p j f' i b Hs). lia. }
+      rewrite Ec. cbn [out_st]. exact R2.
+    Qed.
+
+    (* "reported unrecoverable": status:unrecoverable:<disk>:<file> is in the log of the run exactly when the file is flagged DAMAGED
+       at the end *)
+    Theorem fix_run_unrec_iff :
+      let out := check_run hashf padz truncf bs nlev false newino now o c par fs0 objs (seq 0 bm) in
+      forall p j f i b, slot_of c p j = SFile f i b ->
+        (In (unr_tag j f) (r_tags (out_st out)) <-> dam (out_st out) j f = true).
+    Proof.
+      cbn zeta. intros p j f i b Hs. split.
+      - intro H. destruct (fix_run_unrec_only (unr_tag j f) eq_refl H) as [p' [j' [f' [i' [b' [_ [X2 X3]]]]]]].
+        unfold unr_tag in X2. injection X2 as E1 E2. apply Nat2N.inj in E1. subst j'. rewrite E2. exact X3.
+      - intro Hd. apply (fix_run_damaged_reported p j f i b Hs Hd).
     Qed.
 
     (* a file that was intact in the damaged array -- not larger than recorded, every mapped block readable and, when it has a
@@ -1840,6 +2603,29 @@ Section StatementsP.
     exact (fix_run_damaged_reported hashf padz truncf bs nlev newino now o c bm fs par Hp Hf Hg Hl Hpl objs O1 Hbm).
   Qed.
 
+  (* "reported unrecoverable": the line is in the log exactly for the files flagged DAMAGED at the end, and for no other name *)
+  Theorem run_fix_unrec_iff o c bm fs par objs :
+    plain nlev o -> co_fix o = true -> geom bs c bm -> c_blockmax c = bm ->
+    length fs = length (c_disks c) -> nlev <= length par -> objs_ok c objs ->
+    let out := check_run o c par fs objs (seq 0 bm) in
+    forall p j f i b, slot_of c p j = SFile f i b ->
+      (In (K_ST_UNREC, [N.of_nat j; cf_name f]) (r_tags (out_st out)) <-> fl_damaged (get_fl (r_flags (out_st out)) (j, cf_name f)) = true).
+  Proof.
+    intros Hp Hf Hg Hbm Hl Hpl [O1 _].
+    exact (fix_run_unrec_iff hashf padz truncf bs nlev newino now o c bm fs par Hp Hf Hg Hl Hpl objs O1 Hbm).
+  Qed.
+  Theorem run_fix_unrec_only o c bm fs par objs :
+    plain nlev o -> co_fix o = true -> geom bs c bm -> c_blockmax c = bm ->
+    length fs = length (c_disks c) -> nlev <= length par -> objs_ok c objs ->
+    let out := check_run o c par fs objs (seq 0 bm) in
+    forall t, fst t = K_ST_UNREC -> In t (r_tags (out_st out)) ->
+      exists p j f i b, slot_of c p j = SFile f i b /\ t = (K_ST_UNREC, [N.of_nat j; cf_name f])
+                        /\ fl_damaged (get_fl (r_flags (out_st out)) (j, cf_name f)) = true.
+  Proof.
+    intros Hp Hf Hg Hbm Hl Hpl [O1 _].
+    exact (fix_run_unrec_only hashf padz truncf bs nlev newino now o c bm fs par Hp Hf Hg Hl Hpl objs O1 Hbm).
+  Qed.
+
   (* every block with a recorded hash, in ANY stripe: in a file flagged DAMAGED, or exactly the recorded block *)
   Theorem run_fix_blk_exact o c bm fs par objs rb :
     plain nlev o -> co_fix o = true -> geom bs c bm -> c_blockmax c = bm ->
@@ -1857,6 +2643,21 @@ Section StatementsP.
     destruct Hx as [Hx|Hx]; [exact Hx|]. rewrite Hx. unfold wbv. rewrite (C3 p j f i b Hpb Hs Hnc). reflexivity.
   Qed.
 
+  (* the recorded SIZE: a file not flagged DAMAGED is present at the end of the run, under its name, with exactly its recorded size
+     (whatever its size in the damaged array: larger files are cut back when first opened, shorter or missing ones grow by the
+     writes of the rebuilt blocks; the last block of a file not flagged was read or written) *)
+  Theorem run_fix_size_exact o c bm fs par objs :
+    plain nlev o -> co_fix o = true -> geom bs c bm -> c_blockmax c = bm ->
+    length fs = length (c_disks c) -> nlev <= length par -> objs_ok c objs ->
+    let out := check_run o c par fs objs (seq 0 bm) in
+    forall p j f i b, slot_of c p j = SFile f i b ->
+      fl_damaged (get_fl (r_flags (out_st out)) (j, cf_name f)) = false ->
+      exists g, fs_find (r_fs (out_st out)) j (cf_name f) = Some g /\ ff_size g = cf_size f.
+  Proof.
+    intros Hp Hf Hg Hbm Hl Hpl [O1 _].
+    exact (fix_run_size_exact hashf padz truncf bs nlev newino now o c bm fs par Hp Hf Hg Hl Hpl objs O1 Hbm).
+  Qed.
+
   (* C05 on the model, full hash size, arrays with pending changes: every file recorded in the content file is, at the end of fix,
      either reported unrecoverable (flag, status line, renamed away, counted, failing exit status) or left under its name with:
      at every block with a recorded hash exactly the recorded block, at every CHG block the block of the disk or a rebuilt block
@@ -1872,6 +2673,7 @@ Section StatementsP.
           /\ fs_find (r_fs (out_st out)) j (cf_name f) = None /\ In (K_ST_UNREC, [N.of_nat j; cf_name f]) (r_tags (out_st out))
           /\ r_unrec (out_st out) <> 0 /\ out_fail out = true)
          \/ (fl_damaged (get_fl (r_flags (out_st out)) (j, cf_name f)) = false
+             /\ (exists g, fs_find (r_fs (out_st out)) j (cf_name f) = Some g /\ ff_size g = cf_size f)
              /\ (fb_state b <> SChg -> fblk (r_fs (out_st out)) j (cf_name f) i = rb p j)
              /\ (fb_state b = SChg ->
                    fblk (r_fs (out_st out)) j (cf_name f) i = fblk fs j (cf_name f) i
@@ -1883,11 +2685,45 @@ Section StatementsP.
     intros p j f i b Hs.
     destruct (fl_damaged (get_fl (r_flags (out_st (check_run o c par fs objs (seq 0 bm)))) (j, cf_name f))) eqn:Hd.
     - left. split; [reflexivity|]. apply (run_fix_damaged_reported o c bm fs par objs Hp Hf Hg Hbm Hl Hpl Ho p j f i b Hs Hd).
-    - right. split; [reflexivity|]. split.
+    - right. split; [reflexivity|]. split; [exact (run_fix_size_exact o c bm fs par objs Hp Hf Hg Hbm Hl Hpl Ho p j f i b Hs Hd)|]. split.
       + intro Hnc. destruct (run_fix_blk_exact o c bm fs par objs rb Hp Hf Hg Hbm Hl Hpl Ho CB p j f i b Hs Hnc) as [X|X]; [|exact X].
         cbn zeta in X. rewrite Hd in X. discriminate X.
       + intro Hc. destruct (run_fix_chg_not_old_partial o c bm fs par objs Hp Hf Hg Hbm Hl Hpl Ho PHI p j f i b Hs Hc) as [X|X]; [|exact X].
         cbn zeta in X. rewrite Hd in X. discriminate X.
+  Qed.
+
+  (* "reported recovered" *)
+  Theorem run_fix_recovered_iff o c bm fs par objs :
+    plain nlev o -> co_fix o = true -> geom bs c bm -> c_blockmax c = bm ->
+    length fs = length (c_disks c) -> nlev <= length par -> objs_ok c objs ->
+    let out := check_run o c par fs objs (seq 0 bm) in
+    forall p j f i b, slot_of c p j = SFile f i b ->
+      (In (K_ST_RECOVERED, [N.of_nat j; cf_name f]) (r_tags (out_st out)) <->
+       fl_fixed (get_fl (r_flags (out_st out)) (j, cf_name f)) = true /\ fl_damaged (get_fl (r_flags (out_st out)) (j, cf_name f)) = false).
+  Proof.
+    intros Hp Hf Hg Hbm Hl Hpl [O1 _].
+    exact (fix_run_recovered_iff hashf padz truncf bs nlev newino now o c bm fs par Hp Hf Hg Hl Hpl objs O1 Hbm).
+  Qed.
+
+  (* ... hence the property phrased with the tag: a file REPORTED RECOVERED holds, at every block with a recorded hash, the recorded
+     block, and at every CHG block the block of the disk or a rebuilt block that is not the stale old one *)
+  Theorem run_fix_recovered_never_wrong o c bm fs par objs rb :
+    plain nlev o -> co_fix o = true -> geom bs c bm -> c_blockmax c = bm ->
+    length fs = length (c_disks c) -> nlev <= length par -> objs_ok c objs ->
+    PastHashInvAll hashf padz bs c par -> collision_free_blk hashf padz bs c bm rb ->
+    let out := check_run o c par fs objs (seq 0 bm) in
+    forall p j f i b, slot_of c p j = SFile f i b -> In (K_ST_RECOVERED, [N.of_nat j; cf_name f]) (r_tags (out_st out)) ->
+      (exists g, fs_find (r_fs (out_st out)) j (cf_name f) = Some g /\ ff_size g = cf_size f)
+      /\ (fb_state b <> SChg -> fblk (r_fs (out_st out)) j (cf_name f) i = rb p j)
+      /\ (fb_state b = SChg ->
+            fblk (r_fs (out_st out)) j (cf_name f) i = fblk fs j (cf_name f) i
+            \/ exists x, fblk (r_fs (out_st out)) j (cf_name f) i = wbv padz truncf bs f i x
+                         /\ forall l v, nth p (nth l par []) PNone = PEnc v -> x <> vnth v j).
+  Proof.
+    intros Hp Hf Hg Hbm Hl Hpl Ho PHI CB. cbn zeta. intros p j f i b Hs Ht.
+    destruct (proj1 (run_fix_recovered_iff o c bm fs par objs Hp Hf Hg Hbm Hl Hpl Ho p j f i b Hs) Ht) as [_ Hd].
+    destruct (run_fix_never_wrong o c bm fs par objs rb Hp Hf Hg Hbm Hl Hpl Ho PHI CB) as [_ H]. cbn zeta in H.
+    destruct (H p j f i b Hs) as [[X _]|[_ X]]; [cbn zeta in Hd; rewrite Hd in X; discriminate X | exact X].
   Qed.
 
   (* mixed arrays: the blocks of the entirely synced stripes *)
